@@ -9,6 +9,12 @@ type nat =
 | O
 | S of nat
 
+(** val option_map : ('a1 -> 'a2) -> 'a1 option -> 'a2 option **)
+
+let option_map f = function
+| Some a -> Some (f a)
+| None -> None
+
 (** val fst : ('a1 * 'a2) -> 'a1 **)
 
 let fst = function
@@ -52,6 +58,15 @@ module Coq__1 = struct
    | S p -> S (add p m)
 end
 include Coq__1
+
+(** val sub : nat -> nat -> nat **)
+
+let rec sub n0 m =
+  match n0 with
+  | O -> n0
+  | S k -> (match m with
+            | O -> n0
+            | S l -> sub k l)
 
 type byte =
 | X00
@@ -316,388 +331,388 @@ type byte =
     byte **)
 
 let of_bits = function
-| (b0, p) ->
-  if b0
-  then let (b1, p0) = p in
-       if b1
-       then let (b2, p1) = p0 in
-            if b2
-            then let (b3, p2) = p1 in
-                 if b3
-                 then let (b4, p3) = p2 in
-                      if b4
-                      then let (b5, p4) = p3 in
-                           if b5
-                           then let (b6, b7) = p4 in
-                                if b6
-                                then if b7 then Xff else X7f
-                                else if b7 then Xbf else X3f
-                           else let (b6, b7) = p4 in
-                                if b6
-                                then if b7 then Xdf else X5f
-                                else if b7 then X9f else X1f
-                      else let (b5, p4) = p3 in
-                           if b5
-                           then let (b6, b7) = p4 in
-                                if b6
-                                then if b7 then Xef else X6f
-                                else if b7 then Xaf else X2f
-                           else let (b6, b7) = p4 in
-                                if b6
-                                then if b7 then Xcf else X4f
-                                else if b7 then X8f else X0f
-                 else let (b4, p3) = p2 in
-                      if b4
-                      then let (b5, p4) = p3 in
-                           if b5
-                           then let (b6, b7) = p4 in
-                                if b6
-                                then if b7 then Xf7 else X77
-                                else if b7 then Xb7 else X37
-                           else let (b6, b7) = p4 in
-                                if b6
-                                then if b7 then Xd7 else X57
-                                else if b7 then X97 else X17
-                      else let (b5, p4) = p3 in
-                           if b5
-                           then let (b6, b7) = p4 in
-                                if b6
-                                then if b7 then Xe7 else X67
-                                else if b7 then Xa7 else X27
-                           else let (b6, b7) = p4 in
-                                if b6
-                                then if b7 then Xc7 else X47
-                                else if b7 then X87 else X07
-            else let (b3, p2) = p1 in
-                 if b3
-                 then let (b4, p3) = p2 in
-                      if b4
-                      then let (b5, p4) = p3 in
-                           if b5
-                           then let (b6, b7) = p4 in
-                                if b6
-                                then if b7 then Xfb else X7b
-                                else if b7 then Xbb else X3b
-                           else let (b6, b7) = p4 in
-                                if b6
-                                then if b7 then Xdb else X5b
-                                else if b7 then X9b else X1b
-                      else let (b5, p4) = p3 in
-                           if b5
-                           then let (b6, b7) = p4 in
-                                if b6
-                                then if b7 then Xeb else X6b
-                                else if b7 then Xab else X2b
-                           else let (b6, b7) = p4 in
-                                if b6
-                                then if b7 then Xcb else X4b
-                                else if b7 then X8b else X0b
-                 else let (b4, p3) = p2 in
-                      if b4
-                      then let (b5, p4) = p3 in
-                           if b5
-                           then let (b6, b7) = p4 in
-                                if b6
-                                then if b7 then Xf3 else X73
-                                else if b7 then Xb3 else X33
-                           else let (b6, b7) = p4 in
-                                if b6
-                                then if b7 then Xd3 else X53
-                                else if b7 then X93 else X13
-                      else let (b5, p4) = p3 in
-                           if b5
-                           then let (b6, b7) = p4 in
-                                if b6
-                                then if b7 then Xe3 else X63
-                                else if b7 then Xa3 else X23
-                           else let (b6, b7) = p4 in
-                                if b6
-                                then if b7 then Xc3 else X43
-                                else if b7 then X83 else X03
-       else let (b2, p1) = p0 in
-            if b2
-            then let (b3, p2) = p1 in
-                 if b3
-                 then let (b4, p3) = p2 in
-                      if b4
-                      then let (b5, p4) = p3 in
-                           if b5
-                           then let (b6, b7) = p4 in
-                                if b6
-                                then if b7 then Xfd else X7d
-                                else if b7 then Xbd else X3d
-                           else let (b6, b7) = p4 in
-                                if b6
-                                then if b7 then Xdd else X5d
-                                else if b7 then X9d else X1d
-                      else let (b5, p4) = p3 in
-                           if b5
-                           then let (b6, b7) = p4 in
-                                if b6
-                                then if b7 then Xed else X6d
-                                else if b7 then Xad else X2d
-                           else let (b6, b7) = p4 in
-                                if b6
-                                then if b7 then Xcd else X4d
-                                else if b7 then X8d else X0d
-                 else let (b4, p3) = p2 in
-                      if b4
-                      then let (b5, p4) = p3 in
-                           if b5
-                           then let (b6, b7) = p4 in
-                                if b6
-                                then if b7 then Xf5 else X75
-                                else if b7 then Xb5 else X35
-                           else let (b6, b7) = p4 in
-                                if b6
-                                then if b7 then Xd5 else X55
-                                else if b7 then X95 else X15
-                      else let (b5, p4) = p3 in
-                           if b5
-                           then let (b6, b7) = p4 in
-                                if b6
-                                then if b7 then Xe5 else X65
-                                else if b7 then Xa5 else X25
-                           else let (b6, b7) = p4 in
-                                if b6
-                                then if b7 then Xc5 else X45
-                                else if b7 then X85 else X05
-            else let (b3, p2) = p1 in
-                 if b3
-                 then let (b4, p3) = p2 in
-                      if b4
-                      then let (b5, p4) = p3 in
-                           if b5
-                           then let (b6, b7) = p4 in
-                                if b6
-                                then if b7 then Xf9 else X79
-                                else if b7 then Xb9 else X39
-                           else let (b6, b7) = p4 in
-                                if b6
-                                then if b7 then Xd9 else X59
-                                else if b7 then X99 else X19
-                      else let (b5, p4) = p3 in
-                           if b5
-                           then let (b6, b7) = p4 in
-                                if b6
-                                then if b7 then Xe9 else X69
-                                else if b7 then Xa9 else X29
-                           else let (b6, b7) = p4 in
-                                if b6
-                                then if b7 then Xc9 else X49
-                                else if b7 then X89 else X09
-                 else let (b4, p3) = p2 in
-                      if b4
-                      then let (b5, p4) = p3 in
-                           if b5
-                           then let (b6, b7) = p4 in
-                                if b6
-                                then if b7 then Xf1 else X71
-                                else if b7 then Xb1 else X31
-                           else let (b6, b7) = p4 in
-                                if b6
-                                then if b7 then Xd1 else X51
-                                else if b7 then X91 else X11
-                      else let (b5, p4) = p3 in
-                           if b5
-                           then let (b6, b7) = p4 in
-                                if b6
-                                then if b7 then Xe1 else X61
-                                else if b7 then Xa1 else X21
-                           else let (b6, b7) = p4 in
-                                if b6
-                                then if b7 then Xc1 else X41
-                                else if b7 then X81 else X01
-  else let (b1, p0) = p in
-       if b1
-       then let (b2, p1) = p0 in
-            if b2
-            then let (b3, p2) = p1 in
-                 if b3
-                 then let (b4, p3) = p2 in
-                      if b4
-                      then let (b5, p4) = p3 in
-                           if b5
-                           then let (b6, b7) = p4 in
-                                if b6
-                                then if b7 then Xfe else X7e
-                                else if b7 then Xbe else X3e
-                           else let (b6, b7) = p4 in
-                                if b6
-                                then if b7 then Xde else X5e
-                                else if b7 then X9e else X1e
-                      else let (b5, p4) = p3 in
-                           if b5
-                           then let (b6, b7) = p4 in
-                                if b6
-                                then if b7 then Xee else X6e
-                                else if b7 then Xae else X2e
-                           else let (b6, b7) = p4 in
-                                if b6
-                                then if b7 then Xce else X4e
-                                else if b7 then X8e else X0e
-                 else let (b4, p3) = p2 in
-                      if b4
-                      then let (b5, p4) = p3 in
-                           if b5
-                           then let (b6, b7) = p4 in
-                                if b6
-                                then if b7 then Xf6 else X76
-                                else if b7 then Xb6 else X36
-                           else let (b6, b7) = p4 in
-                                if b6
-                                then if b7 then Xd6 else X56
-                                else if b7 then X96 else X16
-                      else let (b5, p4) = p3 in
-                           if b5
-                           then let (b6, b7) = p4 in
-                                if b6
-                                then if b7 then Xe6 else X66
-                                else if b7 then Xa6 else X26
-                           else let (b6, b7) = p4 in
-                                if b6
-                                then if b7 then Xc6 else X46
-                                else if b7 then X86 else X06
-            else let (b3, p2) = p1 in
-                 if b3
-                 then let (b4, p3) = p2 in
-                      if b4
-                      then let (b5, p4) = p3 in
-                           if b5
-                           then let (b6, b7) = p4 in
-                                if b6
-                                then if b7 then Xfa else X7a
-                                else if b7 then Xba else X3a
-                           else let (b6, b7) = p4 in
-                                if b6
-                                then if b7 then Xda else X5a
-                                else if b7 then X9a else X1a
-                      else let (b5, p4) = p3 in
-                           if b5
-                           then let (b6, b7) = p4 in
-                                if b6
-                                then if b7 then Xea else X6a
-                                else if b7 then Xaa else X2a
-                           else let (b6, b7) = p4 in
-                                if b6
-                                then if b7 then Xca else X4a
-                                else if b7 then X8a else X0a
-                 else let (b4, p3) = p2 in
-                      if b4
-                      then let (b5, p4) = p3 in
-                           if b5
-                           then let (b6, b7) = p4 in
-                                if b6
-                                then if b7 then Xf2 else X72
-                                else if b7 then Xb2 else X32
-                           else let (b6, b7) = p4 in
-                                if b6
-                                then if b7 then Xd2 else X52
-                                else if b7 then X92 else X12
-                      else let (b5, p4) = p3 in
-                           if b5
-                           then let (b6, b7) = p4 in
-                                if b6
-                                then if b7 then Xe2 else X62
-                                else if b7 then Xa2 else X22
-                           else let (b6, b7) = p4 in
-                                if b6
-                                then if b7 then Xc2 else X42
-                                else if b7 then X82 else X02
-       else let (b2, p1) = p0 in
-            if b2
-            then let (b3, p2) = p1 in
-                 if b3
-                 then let (b4, p3) = p2 in
-                      if b4
-                      then let (b5, p4) = p3 in
-                           if b5
-                           then let (b6, b7) = p4 in
-                                if b6
-                                then if b7 then Xfc else X7c
-                                else if b7 then Xbc else X3c
-                           else let (b6, b7) = p4 in
-                                if b6
-                                then if b7 then Xdc else X5c
-                                else if b7 then X9c else X1c
-                      else let (b5, p4) = p3 in
-                           if b5
-                           then let (b6, b7) = p4 in
-                                if b6
-                                then if b7 then Xec else X6c
-                                else if b7 then Xac else X2c
-                           else let (b6, b7) = p4 in
-                                if b6
-                                then if b7 then Xcc else X4c
-                                else if b7 then X8c else X0c
-                 else let (b4, p3) = p2 in
-                      if b4
-                      then let (b5, p4) = p3 in
-                           if b5
-                           then let (b6, b7) = p4 in
-                                if b6
-                                then if b7 then Xf4 else X74
-                                else if b7 then Xb4 else X34
-                           else let (b6, b7) = p4 in
-                                if b6
-                                then if b7 then Xd4 else X54
-                                else if b7 then X94 else X14
-                      else let (b5, p4) = p3 in
-                           if b5
-                           then let (b6, b7) = p4 in
-                                if b6
-                                then if b7 then Xe4 else X64
-                                else if b7 then Xa4 else X24
-                           else let (b6, b7) = p4 in
-                                if b6
-                                then if b7 then Xc4 else X44
-                                else if b7 then X84 else X04
-            else let (b3, p2) = p1 in
-                 if b3
-                 then let (b4, p3) = p2 in
-                      if b4
-                      then let (b5, p4) = p3 in
-                           if b5
-                           then let (b6, b7) = p4 in
-                                if b6
-                                then if b7 then Xf8 else X78
-                                else if b7 then Xb8 else X38
-                           else let (b6, b7) = p4 in
-                                if b6
-                                then if b7 then Xd8 else X58
-                                else if b7 then X98 else X18
-                      else let (b5, p4) = p3 in
-                           if b5
-                           then let (b6, b7) = p4 in
-                                if b6
-                                then if b7 then Xe8 else X68
-                                else if b7 then Xa8 else X28
-                           else let (b6, b7) = p4 in
-                                if b6
-                                then if b7 then Xc8 else X48
-                                else if b7 then X88 else X08
-                 else let (b4, p3) = p2 in
-                      if b4
-                      then let (b5, p4) = p3 in
-                           if b5
-                           then let (b6, b7) = p4 in
-                                if b6
-                                then if b7 then Xf0 else X70
-                                else if b7 then Xb0 else X30
-                           else let (b6, b7) = p4 in
-                                if b6
-                                then if b7 then Xd0 else X50
-                                else if b7 then X90 else X10
-                      else let (b5, p4) = p3 in
-                           if b5
-                           then let (b6, b7) = p4 in
-                                if b6
-                                then if b7 then Xe0 else X60
-                                else if b7 then Xa0 else X20
-                           else let (b6, b7) = p4 in
-                                if b6
-                                then if b7 then Xc0 else X40
-                                else if b7 then X80 else X00
+| (b1, p) ->
+  if b1
+  then let (b2, p0) = p in
+       if b2
+       then let (b3, p1) = p0 in
+            if b3
+            then let (b4, p2) = p1 in
+                 if b4
+                 then let (b5, p3) = p2 in
+                      if b5
+                      then let (b6, p4) = p3 in
+                           if b6
+                           then let (b7, b8) = p4 in
+                                if b7
+                                then if b8 then Xff else X7f
+                                else if b8 then Xbf else X3f
+                           else let (b7, b8) = p4 in
+                                if b7
+                                then if b8 then Xdf else X5f
+                                else if b8 then X9f else X1f
+                      else let (b6, p4) = p3 in
+                           if b6
+                           then let (b7, b8) = p4 in
+                                if b7
+                                then if b8 then Xef else X6f
+                                else if b8 then Xaf else X2f
+                           else let (b7, b8) = p4 in
+                                if b7
+                                then if b8 then Xcf else X4f
+                                else if b8 then X8f else X0f
+                 else let (b5, p3) = p2 in
+                      if b5
+                      then let (b6, p4) = p3 in
+                           if b6
+                           then let (b7, b8) = p4 in
+                                if b7
+                                then if b8 then Xf7 else X77
+                                else if b8 then Xb7 else X37
+                           else let (b7, b8) = p4 in
+                                if b7
+                                then if b8 then Xd7 else X57
+                                else if b8 then X97 else X17
+                      else let (b6, p4) = p3 in
+                           if b6
+                           then let (b7, b8) = p4 in
+                                if b7
+                                then if b8 then Xe7 else X67
+                                else if b8 then Xa7 else X27
+                           else let (b7, b8) = p4 in
+                                if b7
+                                then if b8 then Xc7 else X47
+                                else if b8 then X87 else X07
+            else let (b4, p2) = p1 in
+                 if b4
+                 then let (b5, p3) = p2 in
+                      if b5
+                      then let (b6, p4) = p3 in
+                           if b6
+                           then let (b7, b8) = p4 in
+                                if b7
+                                then if b8 then Xfb else X7b
+                                else if b8 then Xbb else X3b
+                           else let (b7, b8) = p4 in
+                                if b7
+                                then if b8 then Xdb else X5b
+                                else if b8 then X9b else X1b
+                      else let (b6, p4) = p3 in
+                           if b6
+                           then let (b7, b8) = p4 in
+                                if b7
+                                then if b8 then Xeb else X6b
+                                else if b8 then Xab else X2b
+                           else let (b7, b8) = p4 in
+                                if b7
+                                then if b8 then Xcb else X4b
+                                else if b8 then X8b else X0b
+                 else let (b5, p3) = p2 in
+                      if b5
+                      then let (b6, p4) = p3 in
+                           if b6
+                           then let (b7, b8) = p4 in
+                                if b7
+                                then if b8 then Xf3 else X73
+                                else if b8 then Xb3 else X33
+                           else let (b7, b8) = p4 in
+                                if b7
+                                then if b8 then Xd3 else X53
+                                else if b8 then X93 else X13
+                      else let (b6, p4) = p3 in
+                           if b6
+                           then let (b7, b8) = p4 in
+                                if b7
+                                then if b8 then Xe3 else X63
+                                else if b8 then Xa3 else X23
+                           else let (b7, b8) = p4 in
+                                if b7
+                                then if b8 then Xc3 else X43
+                                else if b8 then X83 else X03
+       else let (b3, p1) = p0 in
+            if b3
+            then let (b4, p2) = p1 in
+                 if b4
+                 then let (b5, p3) = p2 in
+                      if b5
+                      then let (b6, p4) = p3 in
+                           if b6
+                           then let (b7, b8) = p4 in
+                                if b7
+                                then if b8 then Xfd else X7d
+                                else if b8 then Xbd else X3d
+                           else let (b7, b8) = p4 in
+                                if b7
+                                then if b8 then Xdd else X5d
+                                else if b8 then X9d else X1d
+                      else let (b6, p4) = p3 in
+                           if b6
+                           then let (b7, b8) = p4 in
+                                if b7
+                                then if b8 then Xed else X6d
+                                else if b8 then Xad else X2d
+                           else let (b7, b8) = p4 in
+                                if b7
+                                then if b8 then Xcd else X4d
+                                else if b8 then X8d else X0d
+                 else let (b5, p3) = p2 in
+                      if b5
+                      then let (b6, p4) = p3 in
+                           if b6
+                           then let (b7, b8) = p4 in
+                                if b7
+                                then if b8 then Xf5 else X75
+                                else if b8 then Xb5 else X35
+                           else let (b7, b8) = p4 in
+                                if b7
+                                then if b8 then Xd5 else X55
+                                else if b8 then X95 else X15
+                      else let (b6, p4) = p3 in
+                           if b6
+                           then let (b7, b8) = p4 in
+                                if b7
+                                then if b8 then Xe5 else X65
+                                else if b8 then Xa5 else X25
+                           else let (b7, b8) = p4 in
+                                if b7
+                                then if b8 then Xc5 else X45
+                                else if b8 then X85 else X05
+            else let (b4, p2) = p1 in
+                 if b4
+                 then let (b5, p3) = p2 in
+                      if b5
+                      then let (b6, p4) = p3 in
+                           if b6
+                           then let (b7, b8) = p4 in
+                                if b7
+                                then if b8 then Xf9 else X79
+                                else if b8 then Xb9 else X39
+                           else let (b7, b8) = p4 in
+                                if b7
+                                then if b8 then Xd9 else X59
+                                else if b8 then X99 else X19
+                      else let (b6, p4) = p3 in
+                           if b6
+                           then let (b7, b8) = p4 in
+                                if b7
+                                then if b8 then Xe9 else X69
+                                else if b8 then Xa9 else X29
+                           else let (b7, b8) = p4 in
+                                if b7
+                                then if b8 then Xc9 else X49
+                                else if b8 then X89 else X09
+                 else let (b5, p3) = p2 in
+                      if b5
+                      then let (b6, p4) = p3 in
+                           if b6
+                           then let (b7, b8) = p4 in
+                                if b7
+                                then if b8 then Xf1 else X71
+                                else if b8 then Xb1 else X31
+                           else let (b7, b8) = p4 in
+                                if b7
+                                then if b8 then Xd1 else X51
+                                else if b8 then X91 else X11
+                      else let (b6, p4) = p3 in
+                           if b6
+                           then let (b7, b8) = p4 in
+                                if b7
+                                then if b8 then Xe1 else X61
+                                else if b8 then Xa1 else X21
+                           else let (b7, b8) = p4 in
+                                if b7
+                                then if b8 then Xc1 else X41
+                                else if b8 then X81 else X01
+  else let (b2, p0) = p in
+       if b2
+       then let (b3, p1) = p0 in
+            if b3
+            then let (b4, p2) = p1 in
+                 if b4
+                 then let (b5, p3) = p2 in
+                      if b5
+                      then let (b6, p4) = p3 in
+                           if b6
+                           then let (b7, b8) = p4 in
+                                if b7
+                                then if b8 then Xfe else X7e
+                                else if b8 then Xbe else X3e
+                           else let (b7, b8) = p4 in
+                                if b7
+                                then if b8 then Xde else X5e
+                                else if b8 then X9e else X1e
+                      else let (b6, p4) = p3 in
+                           if b6
+                           then let (b7, b8) = p4 in
+                                if b7
+                                then if b8 then Xee else X6e
+                                else if b8 then Xae else X2e
+                           else let (b7, b8) = p4 in
+                                if b7
+                                then if b8 then Xce else X4e
+                                else if b8 then X8e else X0e
+                 else let (b5, p3) = p2 in
+                      if b5
+                      then let (b6, p4) = p3 in
+                           if b6
+                           then let (b7, b8) = p4 in
+                                if b7
+                                then if b8 then Xf6 else X76
+                                else if b8 then Xb6 else X36
+                           else let (b7, b8) = p4 in
+                                if b7
+                                then if b8 then Xd6 else X56
+                                else if b8 then X96 else X16
+                      else let (b6, p4) = p3 in
+                           if b6
+                           then let (b7, b8) = p4 in
+                                if b7
+                                then if b8 then Xe6 else X66
+                                else if b8 then Xa6 else X26
+                           else let (b7, b8) = p4 in
+                                if b7
+                                then if b8 then Xc6 else X46
+                                else if b8 then X86 else X06
+            else let (b4, p2) = p1 in
+                 if b4
+                 then let (b5, p3) = p2 in
+                      if b5
+                      then let (b6, p4) = p3 in
+                           if b6
+                           then let (b7, b8) = p4 in
+                                if b7
+                                then if b8 then Xfa else X7a
+                                else if b8 then Xba else X3a
+                           else let (b7, b8) = p4 in
+                                if b7
+                                then if b8 then Xda else X5a
+                                else if b8 then X9a else X1a
+                      else let (b6, p4) = p3 in
+                           if b6
+                           then let (b7, b8) = p4 in
+                                if b7
+                                then if b8 then Xea else X6a
+                                else if b8 then Xaa else X2a
+                           else let (b7, b8) = p4 in
+                                if b7
+                                then if b8 then Xca else X4a
+                                else if b8 then X8a else X0a
+                 else let (b5, p3) = p2 in
+                      if b5
+                      then let (b6, p4) = p3 in
+                           if b6
+                           then let (b7, b8) = p4 in
+                                if b7
+                                then if b8 then Xf2 else X72
+                                else if b8 then Xb2 else X32
+                           else let (b7, b8) = p4 in
+                                if b7
+                                then if b8 then Xd2 else X52
+                                else if b8 then X92 else X12
+                      else let (b6, p4) = p3 in
+                           if b6
+                           then let (b7, b8) = p4 in
+                                if b7
+                                then if b8 then Xe2 else X62
+                                else if b8 then Xa2 else X22
+                           else let (b7, b8) = p4 in
+                                if b7
+                                then if b8 then Xc2 else X42
+                                else if b8 then X82 else X02
+       else let (b3, p1) = p0 in
+            if b3
+            then let (b4, p2) = p1 in
+                 if b4
+                 then let (b5, p3) = p2 in
+                      if b5
+                      then let (b6, p4) = p3 in
+                           if b6
+                           then let (b7, b8) = p4 in
+                                if b7
+                                then if b8 then Xfc else X7c
+                                else if b8 then Xbc else X3c
+                           else let (b7, b8) = p4 in
+                                if b7
+                                then if b8 then Xdc else X5c
+                                else if b8 then X9c else X1c
+                      else let (b6, p4) = p3 in
+                           if b6
+                           then let (b7, b8) = p4 in
+                                if b7
+                                then if b8 then Xec else X6c
+                                else if b8 then Xac else X2c
+                           else let (b7, b8) = p4 in
+                                if b7
+                                then if b8 then Xcc else X4c
+                                else if b8 then X8c else X0c
+                 else let (b5, p3) = p2 in
+                      if b5
+                      then let (b6, p4) = p3 in
+                           if b6
+                           then let (b7, b8) = p4 in
+                                if b7
+                                then if b8 then Xf4 else X74
+                                else if b8 then Xb4 else X34
+                           else let (b7, b8) = p4 in
+                                if b7
+                                then if b8 then Xd4 else X54
+                                else if b8 then X94 else X14
+                      else let (b6, p4) = p3 in
+                           if b6
+                           then let (b7, b8) = p4 in
+                                if b7
+                                then if b8 then Xe4 else X64
+                                else if b8 then Xa4 else X24
+                           else let (b7, b8) = p4 in
+                                if b7
+                                then if b8 then Xc4 else X44
+                                else if b8 then X84 else X04
+            else let (b4, p2) = p1 in
+                 if b4
+                 then let (b5, p3) = p2 in
+                      if b5
+                      then let (b6, p4) = p3 in
+                           if b6
+                           then let (b7, b8) = p4 in
+                                if b7
+                                then if b8 then Xf8 else X78
+                                else if b8 then Xb8 else X38
+                           else let (b7, b8) = p4 in
+                                if b7
+                                then if b8 then Xd8 else X58
+                                else if b8 then X98 else X18
+                      else let (b6, p4) = p3 in
+                           if b6
+                           then let (b7, b8) = p4 in
+                                if b7
+                                then if b8 then Xe8 else X68
+                                else if b8 then Xa8 else X28
+                           else let (b7, b8) = p4 in
+                                if b7
+                                then if b8 then Xc8 else X48
+                                else if b8 then X88 else X08
+                 else let (b5, p3) = p2 in
+                      if b5
+                      then let (b6, p4) = p3 in
+                           if b6
+                           then let (b7, b8) = p4 in
+                                if b7
+                                then if b8 then Xf0 else X70
+                                else if b8 then Xb0 else X30
+                           else let (b7, b8) = p4 in
+                                if b7
+                                then if b8 then Xd0 else X50
+                                else if b8 then X90 else X10
+                      else let (b6, p4) = p3 in
+                           if b6
+                           then let (b7, b8) = p4 in
+                                if b7
+                                then if b8 then Xe0 else X60
+                                else if b8 then Xa0 else X20
+                           else let (b7, b8) = p4 in
+                                if b7
+                                then if b8 then Xc0 else X40
+                                else if b8 then X80 else X00
 
 (** val to_bits :
     byte -> bool * (bool * (bool * (bool * (bool * (bool * (bool * bool)))))) **)
@@ -1070,6 +1085,13 @@ module Coq_Pos =
   | XO p -> XI (pred_double p)
   | XH -> XH
 
+  (** val pred_N : positive -> n **)
+
+  let pred_N = function
+  | XI p -> Npos (XO p)
+  | XO p -> Npos (pred_double p)
+  | XH -> N0
+
   type mask = Pos.mask =
   | IsNul
   | IsPos of positive
@@ -1186,6 +1208,92 @@ module Coq_Pos =
              | XH -> true
              | _ -> false)
 
+  (** val coq_Nsucc_double : n -> n **)
+
+  let coq_Nsucc_double = function
+  | N0 -> Npos XH
+  | Npos p -> Npos (XI p)
+
+  (** val coq_Ndouble : n -> n **)
+
+  let coq_Ndouble = function
+  | N0 -> N0
+  | Npos p -> Npos (XO p)
+
+  (** val coq_lor : positive -> positive -> positive **)
+
+  let rec coq_lor p q =
+    match p with
+    | XI p0 ->
+      (match q with
+       | XI q0 -> XI (coq_lor p0 q0)
+       | XO q0 -> XI (coq_lor p0 q0)
+       | XH -> p)
+    | XO p0 ->
+      (match q with
+       | XI q0 -> XI (coq_lor p0 q0)
+       | XO q0 -> XO (coq_lor p0 q0)
+       | XH -> XI p0)
+    | XH -> (match q with
+             | XO q0 -> XI q0
+             | _ -> q)
+
+  (** val coq_land : positive -> positive -> n **)
+
+  let rec coq_land p q =
+    match p with
+    | XI p0 ->
+      (match q with
+       | XI q0 -> coq_Nsucc_double (coq_land p0 q0)
+       | XO q0 -> coq_Ndouble (coq_land p0 q0)
+       | XH -> Npos XH)
+    | XO p0 ->
+      (match q with
+       | XI q0 -> coq_Ndouble (coq_land p0 q0)
+       | XO q0 -> coq_Ndouble (coq_land p0 q0)
+       | XH -> N0)
+    | XH -> (match q with
+             | XO _ -> N0
+             | _ -> Npos XH)
+
+  (** val ldiff : positive -> positive -> n **)
+
+  let rec ldiff p q =
+    match p with
+    | XI p0 ->
+      (match q with
+       | XI q0 -> coq_Ndouble (ldiff p0 q0)
+       | XO q0 -> coq_Nsucc_double (ldiff p0 q0)
+       | XH -> Npos (XO p0))
+    | XO p0 ->
+      (match q with
+       | XI q0 -> coq_Ndouble (ldiff p0 q0)
+       | XO q0 -> coq_Ndouble (ldiff p0 q0)
+       | XH -> Npos p)
+    | XH -> (match q with
+             | XO _ -> Npos XH
+             | _ -> N0)
+
+  (** val coq_lxor : positive -> positive -> n **)
+
+  let rec coq_lxor p q =
+    match p with
+    | XI p0 ->
+      (match q with
+       | XI q0 -> coq_Ndouble (coq_lxor p0 q0)
+       | XO q0 -> coq_Nsucc_double (coq_lxor p0 q0)
+       | XH -> Npos (XO p0))
+    | XO p0 ->
+      (match q with
+       | XI q0 -> coq_Nsucc_double (coq_lxor p0 q0)
+       | XO q0 -> coq_Ndouble (coq_lxor p0 q0)
+       | XH -> Npos (XI p0))
+    | XH ->
+      (match q with
+       | XI q0 -> Npos (XO q0)
+       | XO q0 -> Npos (XI q0)
+       | XH -> N0)
+
   (** val iter_op : ('a1 -> 'a1 -> 'a1) -> positive -> 'a1 -> 'a1 **)
 
   let rec iter_op op p a =
@@ -1198,6 +1306,12 @@ module Coq_Pos =
 
   let to_nat x =
     iter_op Coq__1.add x (S O)
+
+  (** val of_succ_nat : nat -> positive **)
+
+  let rec of_succ_nat = function
+  | O -> XH
+  | S x -> succ (of_succ_nat x)
  end
 
 module N =
@@ -1213,6 +1327,12 @@ module N =
   let double = function
   | N0 -> N0
   | Npos p -> Npos (XO p)
+
+  (** val succ_pos : n -> positive **)
+
+  let succ_pos = function
+  | N0 -> XH
+  | Npos p -> Coq_Pos.succ p
 
   (** val add : n -> n -> n **)
 
@@ -1321,6 +1441,42 @@ module N =
 
   let modulo a b =
     snd (div_eucl a b)
+
+  (** val coq_lor : n -> n -> n **)
+
+  let coq_lor n0 m =
+    match n0 with
+    | N0 -> m
+    | Npos p -> (match m with
+                 | N0 -> n0
+                 | Npos q -> Npos (Coq_Pos.coq_lor p q))
+
+  (** val coq_land : n -> n -> n **)
+
+  let coq_land n0 m =
+    match n0 with
+    | N0 -> N0
+    | Npos p -> (match m with
+                 | N0 -> N0
+                 | Npos q -> Coq_Pos.coq_land p q)
+
+  (** val ldiff : n -> n -> n **)
+
+  let ldiff n0 m =
+    match n0 with
+    | N0 -> N0
+    | Npos p -> (match m with
+                 | N0 -> n0
+                 | Npos q -> Coq_Pos.ldiff p q)
+
+  (** val coq_lxor : n -> n -> n **)
+
+  let coq_lxor n0 m =
+    match n0 with
+    | N0 -> m
+    | Npos p -> (match m with
+                 | N0 -> n0
+                 | Npos q -> Coq_Pos.coq_lxor p q)
  end
 
 module Z =
@@ -1485,6 +1641,12 @@ module Z =
   | Zpos p -> Npos p
   | _ -> N0
 
+  (** val of_nat : nat -> z **)
+
+  let of_nat = function
+  | O -> Z0
+  | S n1 -> Zpos (Coq_Pos.of_succ_nat n1)
+
   (** val of_N : n -> z **)
 
   let of_N = function
@@ -1542,7 +1704,70 @@ module Z =
 
   let modulo a b =
     let (_, r) = div_eucl a b in r
+
+  (** val coq_lor : z -> z -> z **)
+
+  let coq_lor a b =
+    match a with
+    | Z0 -> b
+    | Zpos a0 ->
+      (match b with
+       | Z0 -> a
+       | Zpos b1 -> Zpos (Coq_Pos.coq_lor a0 b1)
+       | Zneg b1 -> Zneg (N.succ_pos (N.ldiff (Coq_Pos.pred_N b1) (Npos a0))))
+    | Zneg a0 ->
+      (match b with
+       | Z0 -> a
+       | Zpos b1 -> Zneg (N.succ_pos (N.ldiff (Coq_Pos.pred_N a0) (Npos b1)))
+       | Zneg b1 ->
+         Zneg
+           (N.succ_pos (N.coq_land (Coq_Pos.pred_N a0) (Coq_Pos.pred_N b1))))
+
+  (** val coq_land : z -> z -> z **)
+
+  let coq_land a b =
+    match a with
+    | Z0 -> Z0
+    | Zpos a0 ->
+      (match b with
+       | Z0 -> Z0
+       | Zpos b1 -> of_N (Coq_Pos.coq_land a0 b1)
+       | Zneg b1 -> of_N (N.ldiff (Npos a0) (Coq_Pos.pred_N b1)))
+    | Zneg a0 ->
+      (match b with
+       | Z0 -> Z0
+       | Zpos b1 -> of_N (N.ldiff (Npos b1) (Coq_Pos.pred_N a0))
+       | Zneg b1 ->
+         Zneg (N.succ_pos (N.coq_lor (Coq_Pos.pred_N a0) (Coq_Pos.pred_N b1))))
+
+  (** val coq_lxor : z -> z -> z **)
+
+  let coq_lxor a b =
+    match a with
+    | Z0 -> b
+    | Zpos a0 ->
+      (match b with
+       | Z0 -> a
+       | Zpos b1 -> of_N (Coq_Pos.coq_lxor a0 b1)
+       | Zneg b1 ->
+         Zneg (N.succ_pos (N.coq_lxor (Npos a0) (Coq_Pos.pred_N b1))))
+    | Zneg a0 ->
+      (match b with
+       | Z0 -> a
+       | Zpos b1 ->
+         Zneg (N.succ_pos (N.coq_lxor (Coq_Pos.pred_N a0) (Npos b1)))
+       | Zneg b1 -> of_N (N.coq_lxor (Coq_Pos.pred_N a0) (Coq_Pos.pred_N b1)))
  end
+
+(** val nth_error : 'a1 list -> nat -> 'a1 option **)
+
+let rec nth_error l = function
+| O -> (match l with
+        | [] -> None
+        | x :: _ -> Some x)
+| S n1 -> (match l with
+           | [] -> None
+           | _ :: l0 -> nth_error l0 n1)
 
 (** val rev : 'a1 list -> 'a1 list **)
 
@@ -1621,19 +1846,19 @@ let eqb0 a b =
   let (a4, p3) = p2 in
   let (a5, p4) = p3 in
   let (a6, a7) = p4 in
-  let (b0, p5) = to_bits b in
-  let (b1, p6) = p5 in
-  let (b2, p7) = p6 in
-  let (b3, p8) = p7 in
-  let (b4, p9) = p8 in
-  let (b5, p10) = p9 in
-  let (b6, b7) = p10 in
+  let (b1, p5) = to_bits b in
+  let (b2, p6) = p5 in
+  let (b3, p7) = p6 in
+  let (b4, p8) = p7 in
+  let (b5, p9) = p8 in
+  let (b6, p10) = p9 in
+  let (b7, b8) = p10 in
   (&&)
     ((&&)
       ((&&)
         ((&&)
-          ((&&) ((&&) ((&&) (eqb a0 b0) (eqb a1 b1)) (eqb a2 b2)) (eqb a3 b3))
-          (eqb a4 b4)) (eqb a5 b5)) (eqb a6 b6)) (eqb a7 b7)
+          ((&&) ((&&) ((&&) (eqb a0 b1) (eqb a1 b2)) (eqb a2 b3)) (eqb a3 b4))
+          (eqb a4 b5)) (eqb a5 b6)) (eqb a6 b7)) (eqb a7 b8)
 
 (** val to_N0 : byte -> n **)
 
@@ -2671,8 +2896,8 @@ type ascii =
 (** val byte_of_ascii : ascii -> byte **)
 
 let byte_of_ascii = function
-| Ascii (b0, b1, b2, b3, b4, b5, b6, b7) ->
-  of_bits (b0, (b1, (b2, (b3, (b4, (b5, (b6, b7)))))))
+| Ascii (b1, b2, b3, b4, b5, b6, b7, b8) ->
+  of_bits (b1, (b2, (b3, (b4, (b5, (b6, (b7, b8)))))))
 
 type string =
 | EmptyString
@@ -2736,11 +2961,43 @@ let is_upper b =
   (&&) (N.leb (Npos (XI (XO (XO (XO (XO (XO XH))))))) (b2n b))
     (N.leb (b2n b) (Npos (XO (XI (XO (XI (XI (XO XH))))))))
 
+(** val is_lower : byte -> bool **)
+
+let is_lower b =
+  (&&) (N.leb (Npos (XI (XO (XO (XO (XO (XI XH))))))) (b2n b))
+    (N.leb (b2n b) (Npos (XO (XI (XO (XI (XI (XI XH))))))))
+
+(** val is_alpha : byte -> bool **)
+
+let is_alpha b =
+  (||) (is_upper b) (is_lower b)
+
 (** val is_digit : byte -> bool **)
 
 let is_digit b =
   (&&) (N.leb (Npos (XO (XO (XO (XO (XI XH)))))) (b2n b))
     (N.leb (b2n b) (Npos (XI (XO (XO (XI (XI XH)))))))
+
+(** val is_ascii : byte -> bool **)
+
+let is_ascii b =
+  N.ltb (b2n b) (Npos (XO (XO (XO (XO (XO (XO (XO XH))))))))
+
+(** val is_vchar : byte -> bool **)
+
+let is_vchar b =
+  (&&) (N.leb (Npos (XI (XO (XO (XO (XO XH)))))) (b2n b))
+    (N.leb (b2n b) (Npos (XO (XI (XI (XI (XI (XI XH))))))))
+
+(** val is_ascii_ws : byte -> bool **)
+
+let is_ascii_ws = function
+| X09 -> true
+| X0a -> true
+| X0c -> true
+| X0d -> true
+| X20 -> true
+| _ -> false
 
 (** val is_ows : byte -> bool **)
 
@@ -2799,6 +3056,33 @@ let rec split_on sep = function
   else (match split_on sep r with
         | [] -> (x :: []) :: []
         | p :: ps -> (x :: p) :: ps)
+
+(** val find_index : ('a1 -> bool) -> 'a1 list -> nat option **)
+
+let rec find_index p = function
+| [] -> None
+| x :: r ->
+  if p x then Some O else option_map (fun x0 -> S x0) (find_index p r)
+
+(** val is_prefix : bytes -> bytes -> bool **)
+
+let rec is_prefix p l =
+  match p with
+  | [] -> true
+  | x :: p' ->
+    (match l with
+     | [] -> false
+     | y :: l' -> (&&) (eqb0 x y) (is_prefix p' l'))
+
+(** val strip_prefix : bytes -> bytes -> bytes option **)
+
+let rec strip_prefix p l =
+  match p with
+  | [] -> Some l
+  | x :: p' ->
+    (match l with
+     | [] -> None
+     | y :: l' -> if eqb0 x y then strip_prefix p' l' else None)
 
 (** val sECS_PER_DAY : z **)
 
@@ -3397,13 +3681,13 @@ let step_pattern us b = function
 
 (** val match_route : table -> meth -> bytes -> rres **)
 
-let match_route t m uri =
-  let uri0 = strip_slash uri in
+let match_route t m uri0 =
+  let uri1 = strip_slash uri0 in
   let b = bucket_of t m in
-  (match find_literal b uri0 with
+  (match find_literal b uri1 with
    | Some h -> Found (h, [])
    | None ->
-     (match fold_left (step_pattern (split_on X2f uri0)) b.patterns None with
+     (match fold_left (step_pattern (split_on X2f uri1)) b.patterns None with
       | Some p -> let (p0, ps) = p in let (_, h) = p0 in Found (h, ps)
       | None -> Fallback))
 
@@ -3416,8 +3700,8 @@ let classify s = match s with
    | X2a ->
      (match name with
       | [] -> Wild
-      | b0 :: l ->
-        (match b0 with
+      | b1 :: l ->
+        (match b1 with
          | X2a -> (match l with
                    | [] -> DWild
                    | _ :: _ -> Lit s)
@@ -3542,16 +3826,16 @@ type route = seg list * n
 
 (** val register : route list -> seg list -> n -> route list **)
 
-let register rs p h =
-  app (filter (fun e -> negb (equivb (fst e) p)) rs) ((p, h) :: [])
+let register rs0 p h =
+  app (filter (fun e -> negb (equivb (fst e) p)) rs0) ((p, h) :: [])
 
 (** val routes_of : table -> meth -> route list **)
 
 let routes_of t m =
-  fold_left (fun rs r ->
+  fold_left (fun rs0 r ->
     let (y, h) = r in
     let (m', path) = y in
-    if meth_eqb m' m then register rs (pattern_of path) h else rs) t []
+    if meth_eqb m' m then register rs0 (pattern_of path) h else rs0) t []
 
 (** val wf_table : table -> bool **)
 
@@ -3587,13 +3871,13 @@ let rec best_of cur = function
 
 (** val spec_route : table -> meth -> bytes -> rres **)
 
-let spec_route t m uri =
-  let us = path_segs uri in
-  let rs = routes_of t m in
-  (match find (fun e -> (&&) (all_lit (fst e)) (matchb (fst e) us)) rs with
+let spec_route t m uri0 =
+  let us = path_segs uri0 in
+  let rs0 = routes_of t m in
+  (match find (fun e -> (&&) (all_lit (fst e)) (matchb (fst e) us)) rs0 with
    | Some e -> Found ((snd e), [])
    | None ->
-     (match best_of None (filter (fun e -> matchb (fst e) us) rs) with
+     (match best_of None (filter (fun e -> matchb (fst e) us) rs0) with
       | Some e -> Found ((snd e), (bindings (fst e) us))
       | None -> Fallback))
 
@@ -4059,3 +4343,1428 @@ let rec spec_cl_rev = function
 
 let spec_cl ops =
   spec_cl_rev (rev ops)
+
+(** val b0 : z -> z **)
+
+let b0 z0 =
+  Z.modulo z0 (Zpos (XO (XO (XO (XO (XO (XO (XO (XO XH)))))))))
+
+(** val rs : z -> z **)
+
+let rs z0 =
+  Z.div z0 (Zpos (XO (XO (XO (XO (XO (XO (XO (XO XH)))))))))
+
+(** val word_of : z list -> z **)
+
+let rec word_of = function
+| [] -> Z0
+| b :: r ->
+  Z.add b
+    (Z.mul (Zpos (XO (XO (XO (XO (XO (XO (XO (XO XH))))))))) (word_of r))
+
+(** val uni : nat -> z -> z **)
+
+let rec uni n0 c =
+  match n0 with
+  | O -> Z0
+  | S m ->
+    Z.add c
+      (Z.mul (Zpos (XO (XO (XO (XO (XO (XO (XO (XO XH))))))))) (uni m c))
+
+(** val p256 : nat -> z **)
+
+let p256 n0 =
+  Z.pow (Zpos (XO (XO (XO (XO (XO (XO (XO (XO XH))))))))) (Z.of_nat n0)
+
+(** val offsetnz : nat -> z -> nat **)
+
+let rec offsetnz n0 h =
+  match n0 with
+  | O -> O
+  | S m -> if Z.eqb (b0 h) Z0 then S (offsetnz m (rs h)) else O
+
+(** val uri_hit : nat -> z -> z **)
+
+let uri_hit n0 x =
+  let lt =
+    Z.coq_land
+      (Z.modulo (Z.sub x (uni n0 (Zpos (XI (XO (XO (XO (XO XH))))))))
+        (p256 n0))
+      (Z.coq_lxor x (uni n0 (Zpos (XI (XI (XI (XI (XI (XI (XI XH))))))))))
+  in
+  let y = Z.coq_lxor x (uni n0 (Zpos (XI (XI (XI (XI (XI (XI XH)))))))) in
+  let eq =
+    Z.coq_land (Z.modulo (Z.sub y (uni n0 (Zpos XH))) (p256 n0))
+      (Z.coq_lxor y (uni n0 (Zpos (XI (XI (XI (XI (XI (XI (XI XH))))))))))
+  in
+  Z.coq_land (Z.coq_lor (Z.coq_lor lt eq) x)
+    (uni n0 (Zpos (XO (XO (XO (XO (XO (XO (XO XH)))))))))
+
+(** val path_hit : nat -> z -> z **)
+
+let path_hit n0 x =
+  let yq = Z.coq_lxor x (uni n0 (Zpos (XI (XI (XI (XI (XI XH))))))) in
+  let hq =
+    Z.coq_land
+      (Z.coq_land (Z.modulo (Z.sub yq (uni n0 (Zpos XH))) (p256 n0))
+        (Z.coq_lxor yq (uni n0 (Zpos (XI (XI (XI (XI (XI (XI (XI XH)))))))))))
+      (uni n0 (Zpos (XO (XO (XO (XO (XO (XO (XO XH)))))))))
+  in
+  let ys = Z.coq_lxor x (uni n0 (Zpos (XO (XO (XO (XO (XO XH))))))) in
+  let hs =
+    Z.coq_land
+      (Z.coq_land (Z.modulo (Z.sub ys (uni n0 (Zpos XH))) (p256 n0))
+        (Z.coq_lxor ys (uni n0 (Zpos (XI (XI (XI (XI (XI (XI (XI XH)))))))))))
+      (uni n0 (Zpos (XO (XO (XO (XO (XO (XO (XO XH)))))))))
+  in
+  Z.coq_lor hq hs
+
+type perr =
+| EVersion
+| EStatus
+| EHeader
+| EEof
+
+type fault =
+| FOob
+| FStr
+| FFuel
+
+type 'a res =
+| Ok of 'a
+| Err of perr
+| Fault of fault
+
+(** val bind : 'a1 res -> ('a1 -> 'a2 res) -> 'a2 res **)
+
+let bind r k =
+  match r with
+  | Ok a -> k a
+  | Err e -> Err e
+  | Fault f -> Fault f
+
+(** val str_unchecked : bytes -> bytes res **)
+
+let str_unchecked l =
+  if forallb is_ascii l then Ok l else Fault FStr
+
+(** val zs : bytes -> z list **)
+
+let zs l =
+  map b2z l
+
+(** val uri_tail : bytes -> nat **)
+
+let rec uri_tail = function
+| [] -> O
+| b :: r -> if is_vchar b then S (uri_tail r) else O
+
+(** val match_uri_vectored : bytes -> nat **)
+
+let rec match_uri_vectored l = match l with
+| [] -> uri_tail l
+| a :: l0 ->
+  (match l0 with
+   | [] -> uri_tail l
+   | b :: l1 ->
+     (match l1 with
+      | [] -> uri_tail l
+      | c :: l2 ->
+        (match l2 with
+         | [] -> uri_tail l
+         | d :: l3 ->
+           (match l3 with
+            | [] -> uri_tail l
+            | e :: l4 ->
+              (match l4 with
+               | [] -> uri_tail l
+               | f :: l5 ->
+                 (match l5 with
+                  | [] -> uri_tail l
+                  | g :: l6 ->
+                    (match l6 with
+                     | [] -> uri_tail l
+                     | h :: rest ->
+                       let hit =
+                         uri_hit (S (S (S (S (S (S (S (S O))))))))
+                           (word_of
+                             (zs
+                               (a :: (b :: (c :: (d :: (e :: (f :: (g :: (h :: []))))))))))
+                       in
+                       if Z.eqb hit Z0
+                       then add (S (S (S (S (S (S (S (S O))))))))
+                              (match_uri_vectored rest)
+                       else offsetnz (S (S (S (S (S (S (S (S O)))))))) hit)))))))
+
+(** val is_q_or_sp : byte -> bool **)
+
+let is_q_or_sp = function
+| X20 -> true
+| X3f -> true
+| _ -> false
+
+(** val path_tail : bytes -> nat **)
+
+let rec path_tail = function
+| [] -> O
+| b :: r -> if is_q_or_sp b then O else S (path_tail r)
+
+(** val match_path_vectored : bytes -> nat **)
+
+let rec match_path_vectored l = match l with
+| [] -> path_tail l
+| a :: l0 ->
+  (match l0 with
+   | [] -> path_tail l
+   | b :: l1 ->
+     (match l1 with
+      | [] -> path_tail l
+      | c :: l2 ->
+        (match l2 with
+         | [] -> path_tail l
+         | d :: l3 ->
+           (match l3 with
+            | [] -> path_tail l
+            | e :: l4 ->
+              (match l4 with
+               | [] -> path_tail l
+               | f :: l5 ->
+                 (match l5 with
+                  | [] -> path_tail l
+                  | g :: l6 ->
+                    (match l6 with
+                     | [] -> path_tail l
+                     | h :: rest ->
+                       let hit =
+                         path_hit (S (S (S (S (S (S (S (S O))))))))
+                           (word_of
+                             (zs
+                               (a :: (b :: (c :: (d :: (e :: (f :: (g :: (h :: []))))))))))
+                       in
+                       if Z.eqb hit Z0
+                       then add (S (S (S (S (S (S (S (S O))))))))
+                              (match_path_vectored rest)
+                       else offsetnz (S (S (S (S (S (S (S (S O)))))))) hit)))))))
+
+type method0 =
+| MGet
+| MPost
+| MHead
+| MPut
+| MPatch
+| MDelete
+| MOptions
+| MTrace
+| MCustom of bytes
+
+(** val method_str : method0 -> bytes **)
+
+let method_str = function
+| MGet ->
+  bs (String ((Ascii (true, true, true, false, false, false, true, false)),
+    (String ((Ascii (true, false, true, false, false, false, true, false)),
+    (String ((Ascii (false, false, true, false, true, false, true, false)),
+    EmptyString))))))
+| MPost ->
+  bs (String ((Ascii (false, false, false, false, true, false, true, false)),
+    (String ((Ascii (true, true, true, true, false, false, true, false)),
+    (String ((Ascii (true, true, false, false, true, false, true, false)),
+    (String ((Ascii (false, false, true, false, true, false, true, false)),
+    EmptyString))))))))
+| MHead ->
+  bs (String ((Ascii (false, false, false, true, false, false, true, false)),
+    (String ((Ascii (true, false, true, false, false, false, true, false)),
+    (String ((Ascii (true, false, false, false, false, false, true, false)),
+    (String ((Ascii (false, false, true, false, false, false, true, false)),
+    EmptyString))))))))
+| MPut ->
+  bs (String ((Ascii (false, false, false, false, true, false, true, false)),
+    (String ((Ascii (true, false, true, false, true, false, true, false)),
+    (String ((Ascii (false, false, true, false, true, false, true, false)),
+    EmptyString))))))
+| MPatch ->
+  bs (String ((Ascii (false, false, false, false, true, false, true, false)),
+    (String ((Ascii (true, false, false, false, false, false, true, false)),
+    (String ((Ascii (false, false, true, false, true, false, true, false)),
+    (String ((Ascii (true, true, false, false, false, false, true, false)),
+    (String ((Ascii (false, false, false, true, false, false, true, false)),
+    EmptyString))))))))))
+| MDelete ->
+  bs (String ((Ascii (false, false, true, false, false, false, true, false)),
+    (String ((Ascii (true, false, true, false, false, false, true, false)),
+    (String ((Ascii (false, false, true, true, false, false, true, false)),
+    (String ((Ascii (true, false, true, false, false, false, true, false)),
+    (String ((Ascii (false, false, true, false, true, false, true, false)),
+    (String ((Ascii (true, false, true, false, false, false, true, false)),
+    EmptyString))))))))))))
+| MOptions ->
+  bs (String ((Ascii (true, true, true, true, false, false, true, false)),
+    (String ((Ascii (false, false, false, false, true, false, true, false)),
+    (String ((Ascii (false, false, true, false, true, false, true, false)),
+    (String ((Ascii (true, false, false, true, false, false, true, false)),
+    (String ((Ascii (true, true, true, true, false, false, true, false)),
+    (String ((Ascii (false, true, true, true, false, false, true, false)),
+    (String ((Ascii (true, true, false, false, true, false, true, false)),
+    EmptyString))))))))))))))
+| MTrace ->
+  bs (String ((Ascii (false, false, true, false, true, false, true, false)),
+    (String ((Ascii (false, true, false, false, true, false, true, false)),
+    (String ((Ascii (true, false, false, false, false, false, true, false)),
+    (String ((Ascii (true, true, false, false, false, false, true, false)),
+    (String ((Ascii (true, false, true, false, false, false, true, false)),
+    EmptyString))))))))))
+| MCustom s -> s
+
+type uri = { full : bytes; p_start : nat; p_end : nat }
+
+type request = { q_meth : method0; q_target : uri; q_version : n;
+                 q_hdrs : headers; q_offset : nat }
+
+(** val parse_method : bytes -> (method0 * bytes) res **)
+
+let parse_method buf =
+  match strip_prefix
+          (bs (String ((Ascii (true, true, true, false, false, false, true,
+            false)), (String ((Ascii (true, false, true, false, false, false,
+            true, false)), (String ((Ascii (false, false, true, false, true,
+            false, true, false)), (String ((Ascii (false, false, false,
+            false, false, true, false, false)), EmptyString))))))))) buf with
+  | Some rest -> Ok (MGet, rest)
+  | None ->
+    (match strip_prefix
+             (bs (String ((Ascii (false, false, false, false, true, false,
+               true, false)), (String ((Ascii (true, true, true, true, false,
+               false, true, false)), (String ((Ascii (true, true, false,
+               false, true, false, true, false)), (String ((Ascii (false,
+               false, true, false, true, false, true, false)), (String
+               ((Ascii (false, false, false, false, false, true, false,
+               false)), EmptyString))))))))))) buf with
+     | Some rest -> Ok (MPost, rest)
+     | None ->
+       (match find_index (eqb0 X20) buf with
+        | Some i ->
+          let mb = firstn i buf in
+          let rest = skipn (S i) buf in
+          if bytes_eqb mb
+               (bs (String ((Ascii (false, false, false, true, false, false,
+                 true, false)), (String ((Ascii (true, false, true, false,
+                 false, false, true, false)), (String ((Ascii (true, false,
+                 false, false, false, false, true, false)), (String ((Ascii
+                 (false, false, true, false, false, false, true, false)),
+                 EmptyString)))))))))
+          then Ok (MHead, rest)
+          else if bytes_eqb mb
+                    (bs (String ((Ascii (false, false, false, false, true,
+                      false, true, false)), (String ((Ascii (true, false,
+                      true, false, true, false, true, false)), (String
+                      ((Ascii (false, false, true, false, true, false, true,
+                      false)), EmptyString)))))))
+               then Ok (MPut, rest)
+               else if bytes_eqb mb
+                         (bs (String ((Ascii (false, false, false, false,
+                           true, false, true, false)), (String ((Ascii (true,
+                           false, false, false, false, false, true, false)),
+                           (String ((Ascii (false, false, true, false, true,
+                           false, true, false)), (String ((Ascii (true, true,
+                           false, false, false, false, true, false)), (String
+                           ((Ascii (false, false, false, true, false, false,
+                           true, false)), EmptyString)))))))))))
+                    then Ok (MPatch, rest)
+                    else if bytes_eqb mb
+                              (bs (String ((Ascii (false, false, true, false,
+                                false, false, true, false)), (String ((Ascii
+                                (true, false, true, false, false, false,
+                                true, false)), (String ((Ascii (false, false,
+                                true, true, false, false, true, false)),
+                                (String ((Ascii (true, false, true, false,
+                                false, false, true, false)), (String ((Ascii
+                                (false, false, true, false, true, false,
+                                true, false)), (String ((Ascii (true, false,
+                                true, false, false, false, true, false)),
+                                EmptyString)))))))))))))
+                         then Ok (MDelete, rest)
+                         else if bytes_eqb mb
+                                   (bs (String ((Ascii (true, true, true,
+                                     true, false, false, true, false)),
+                                     (String ((Ascii (false, false, false,
+                                     false, true, false, true, false)),
+                                     (String ((Ascii (false, false, true,
+                                     false, true, false, true, false)),
+                                     (String ((Ascii (true, false, false,
+                                     true, false, false, true, false)),
+                                     (String ((Ascii (true, true, true, true,
+                                     false, false, true, false)), (String
+                                     ((Ascii (false, true, true, true, false,
+                                     false, true, false)), (String ((Ascii
+                                     (true, true, false, false, true, false,
+                                     true, false)), EmptyString)))))))))))))))
+                              then Ok (MOptions, rest)
+                              else if bytes_eqb mb
+                                        (bs (String ((Ascii (false, false,
+                                          true, false, true, false, true,
+                                          false)), (String ((Ascii (false,
+                                          true, false, false, true, false,
+                                          true, false)), (String ((Ascii
+                                          (true, false, false, false, false,
+                                          false, true, false)), (String
+                                          ((Ascii (true, true, false, false,
+                                          false, false, true, false)),
+                                          (String ((Ascii (true, false, true,
+                                          false, false, false, true, false)),
+                                          EmptyString)))))))))))
+                                   then Ok (MTrace, rest)
+                                   else if (||) (Nat.eqb (length mb) O)
+                                             (negb (forallb is_alpha mb))
+                                        then Err EStatus
+                                        else bind (str_unchecked mb)
+                                               (fun s -> Ok ((MCustom s),
+                                               rest))
+        | None -> Err EEof))
+
+(** val uRI_VALID : bytes **)
+
+let uRI_VALID =
+  bs (String ((Ascii (true, false, false, false, false, false, true, false)),
+    (String ((Ascii (false, true, false, false, false, false, true, false)),
+    (String ((Ascii (true, true, false, false, false, false, true, false)),
+    (String ((Ascii (false, false, true, false, false, false, true, false)),
+    (String ((Ascii (true, false, true, false, false, false, true, false)),
+    (String ((Ascii (false, true, true, false, false, false, true, false)),
+    (String ((Ascii (true, true, true, false, false, false, true, false)),
+    (String ((Ascii (false, false, false, true, false, false, true, false)),
+    (String ((Ascii (true, false, false, true, false, false, true, false)),
+    (String ((Ascii (false, true, false, true, false, false, true, false)),
+    (String ((Ascii (true, true, false, true, false, false, true, false)),
+    (String ((Ascii (false, false, true, true, false, false, true, false)),
+    (String ((Ascii (true, false, true, true, false, false, true, false)),
+    (String ((Ascii (false, true, true, true, false, false, true, false)),
+    (String ((Ascii (true, true, true, true, false, false, true, false)),
+    (String ((Ascii (false, false, false, false, true, false, true, false)),
+    (String ((Ascii (true, false, false, false, true, false, true, false)),
+    (String ((Ascii (false, true, false, false, true, false, true, false)),
+    (String ((Ascii (true, true, false, false, true, false, true, false)),
+    (String ((Ascii (false, false, true, false, true, false, true, false)),
+    (String ((Ascii (true, false, true, false, true, false, true, false)),
+    (String ((Ascii (false, true, true, false, true, false, true, false)),
+    (String ((Ascii (true, true, true, false, true, false, true, false)),
+    (String ((Ascii (false, false, false, true, true, false, true, false)),
+    (String ((Ascii (true, false, false, true, true, false, true, false)),
+    (String ((Ascii (false, true, false, true, true, false, true, false)),
+    (String ((Ascii (true, false, false, false, false, true, true, false)),
+    (String ((Ascii (false, true, false, false, false, true, true, false)),
+    (String ((Ascii (true, true, false, false, false, true, true, false)),
+    (String ((Ascii (false, false, true, false, false, true, true, false)),
+    (String ((Ascii (true, false, true, false, false, true, true, false)),
+    (String ((Ascii (false, true, true, false, false, true, true, false)),
+    (String ((Ascii (true, true, true, false, false, true, true, false)),
+    (String ((Ascii (false, false, false, true, false, true, true, false)),
+    (String ((Ascii (true, false, false, true, false, true, true, false)),
+    (String ((Ascii (false, true, false, true, false, true, true, false)),
+    (String ((Ascii (true, true, false, true, false, true, true, false)),
+    (String ((Ascii (false, false, true, true, false, true, true, false)),
+    (String ((Ascii (true, false, true, true, false, true, true, false)),
+    (String ((Ascii (false, true, true, true, false, true, true, false)),
+    (String ((Ascii (true, true, true, true, false, true, true, false)),
+    (String ((Ascii (false, false, false, false, true, true, true, false)),
+    (String ((Ascii (true, false, false, false, true, true, true, false)),
+    (String ((Ascii (false, true, false, false, true, true, true, false)),
+    (String ((Ascii (true, true, false, false, true, true, true, false)),
+    (String ((Ascii (false, false, true, false, true, true, true, false)),
+    (String ((Ascii (true, false, true, false, true, true, true, false)),
+    (String ((Ascii (false, true, true, false, true, true, true, false)),
+    (String ((Ascii (true, true, true, false, true, true, true, false)),
+    (String ((Ascii (false, false, false, true, true, true, true, false)),
+    (String ((Ascii (true, false, false, true, true, true, true, false)),
+    (String ((Ascii (false, true, false, true, true, true, true, false)),
+    (String ((Ascii (false, false, false, false, true, true, false, false)),
+    (String ((Ascii (true, false, false, false, true, true, false, false)),
+    (String ((Ascii (false, true, false, false, true, true, false, false)),
+    (String ((Ascii (true, true, false, false, true, true, false, false)),
+    (String ((Ascii (false, false, true, false, true, true, false, false)),
+    (String ((Ascii (true, false, true, false, true, true, false, false)),
+    (String ((Ascii (false, true, true, false, true, true, false, false)),
+    (String ((Ascii (true, true, true, false, true, true, false, false)),
+    (String ((Ascii (false, false, false, true, true, true, false, false)),
+    (String ((Ascii (true, false, false, true, true, true, false, false)),
+    (String ((Ascii (true, false, true, true, false, true, false, false)),
+    (String ((Ascii (false, true, true, true, false, true, false, false)),
+    (String ((Ascii (true, true, true, true, true, false, true, false)),
+    (String ((Ascii (false, true, true, true, true, true, true, false)),
+    (String ((Ascii (false, true, false, true, true, true, false, false)),
+    (String ((Ascii (true, true, true, true, false, true, false, false)),
+    (String ((Ascii (true, true, true, true, true, true, false, false)),
+    (String ((Ascii (true, true, false, false, false, true, false, false)),
+    (String ((Ascii (true, true, false, true, true, false, true, false)),
+    (String ((Ascii (true, false, true, true, true, false, true, false)),
+    (String ((Ascii (false, false, false, false, false, false, true, false)),
+    (String ((Ascii (true, false, false, false, false, true, false, false)),
+    (String ((Ascii (false, false, true, false, false, true, false, false)),
+    (String ((Ascii (false, true, true, false, false, true, false, false)),
+    (String ((Ascii (true, true, true, false, false, true, false, false)),
+    (String ((Ascii (false, false, false, true, false, true, false, false)),
+    (String ((Ascii (true, false, false, true, false, true, false, false)),
+    (String ((Ascii (false, true, false, true, false, true, false, false)),
+    (String ((Ascii (true, true, false, true, false, true, false, false)),
+    (String ((Ascii (false, false, true, true, false, true, false, false)),
+    (String ((Ascii (true, true, false, true, true, true, false, false)),
+    (String ((Ascii (true, false, true, true, true, true, false, false)),
+    (String ((Ascii (true, false, true, false, false, true, false, false)),
+    EmptyString))))))))))))))))))))))))))))))))))))))))))))))))))))))))))))))))))))))))))))))))))))))))))))))))))))))))))))))))))))))))))))))))))))))))))))))))))))))))))))))))))))))))))
+
+(** val is_valid_uri_byte : byte -> bool **)
+
+let is_valid_uri_byte b =
+  existsb (eqb0 b) uRI_VALID
+
+type scan2 =
+| S2Err
+| S2Path of nat
+| S2End of nat
+
+(** val step2 : bool -> bytes -> nat -> scan2 **)
+
+let rec step2 seen l i =
+  match l with
+  | [] -> S2End i
+  | b :: r ->
+    (match b with
+     | X20 -> S2End i
+     | X2f -> S2Path i
+     | X3a ->
+       (match r with
+        | [] -> step2 seen r (add i (S O))
+        | b1 :: l0 ->
+          (match b1 with
+           | X2f ->
+             (match l0 with
+              | [] -> step2 seen r (add i (S O))
+              | b2 :: r' ->
+                (match b2 with
+                 | X2f ->
+                   if seen
+                   then step2 seen r (add i (S O))
+                   else step2 true r' (add i (S (S (S O))))
+                 | _ -> step2 seen r (add i (S O))))
+           | _ -> step2 seen r (add i (S O))))
+     | X3f -> S2End i
+     | _ -> if is_valid_uri_byte b then step2 seen r (add i (S O)) else S2Err)
+
+(** val finish_uri : bytes -> nat -> nat -> nat -> (uri * bytes) res **)
+
+let finish_uri buf k ps pe =
+  bind (str_unchecked (firstn k buf)) (fun u -> Ok ({ full = u; p_start = ps;
+    p_end = pe }, (skipn (S k) buf)))
+
+(** val is_crlf_byte : byte -> bool **)
+
+let is_crlf_byte = function
+| X0a -> true
+| X0d -> true
+| _ -> false
+
+(** val parse_uri : bytes -> (uri * bytes) res **)
+
+let parse_uri buf = match buf with
+| [] -> Err EEof
+| first :: _ ->
+  if eqb0 first X2a
+  then (match nth_error buf (S O) with
+        | Some b ->
+          (match b with
+           | X20 ->
+             Ok ({ full = (X2a :: []); p_start = O; p_end = (S O) },
+               (skipn (S (S O)) buf))
+           | _ -> Err EStatus)
+        | None -> Err EEof)
+  else (match if eqb0 first X2f then S2Path O else step2 false buf O with
+        | S2Err -> Err EStatus
+        | S2Path ps ->
+          let i = add ps (match_path_vectored (skipn ps buf)) in
+          let bad =
+            add ps (match_uri_vectored (firstn (sub i ps) (skipn ps buf)))
+          in
+          if Nat.ltb bad i
+          then (match nth_error buf bad with
+                | Some b ->
+                  if is_crlf_byte b then Err EVersion else Err EStatus
+                | None -> Fault FOob)
+          else (match nth_error buf i with
+                | Some b ->
+                  (match b with
+                   | X20 -> finish_uri buf i ps i
+                   | X3f ->
+                     let i2 = add (S i) (match_uri_vectored (skipn (S i) buf))
+                     in
+                     (match nth_error buf i2 with
+                      | Some b1 ->
+                        (match b1 with
+                         | X20 -> finish_uri buf i2 ps i
+                         | _ -> Err EStatus)
+                      | None -> Err EEof)
+                   | _ -> Err EStatus)
+                | None -> Err EEof)
+        | S2End i ->
+          let j = add i (match_uri_vectored (skipn i buf)) in
+          (match nth_error buf j with
+           | Some b ->
+             (match b with
+              | X20 ->
+                if Nat.eqb j O then Err EStatus else finish_uri buf j O O
+              | _ -> Err EStatus)
+           | None -> Err EEof))
+
+(** val parse_version : bytes -> (n * bytes) res **)
+
+let parse_version buf =
+  match strip_prefix
+          (bs (String ((Ascii (false, false, false, true, false, false, true,
+            false)), (String ((Ascii (false, false, true, false, true, false,
+            true, false)), (String ((Ascii (false, false, true, false, true,
+            false, true, false)), (String ((Ascii (false, false, false,
+            false, true, false, true, false)), (String ((Ascii (true, true,
+            true, true, false, true, false, false)), (String ((Ascii (true,
+            false, false, false, true, true, false, false)), (String ((Ascii
+            (false, true, true, true, false, true, false, false)),
+            EmptyString))))))))))))))) buf with
+  | Some rest ->
+    (match rest with
+     | [] -> Err EEof
+     | b :: r ->
+       (match b with
+        | X30 -> Ok (N0, r)
+        | X31 -> Ok ((Npos XH), r)
+        | _ -> Err EVersion))
+  | None ->
+    if is_prefix (firstn (S (S (S (S (S (S (S O))))))) buf)
+         (bs (String ((Ascii (false, false, false, true, false, false, true,
+           false)), (String ((Ascii (false, false, true, false, true, false,
+           true, false)), (String ((Ascii (false, false, true, false, true,
+           false, true, false)), (String ((Ascii (false, false, false, false,
+           true, false, true, false)), (String ((Ascii (true, true, true,
+           true, false, true, false, false)), (String ((Ascii (true, false,
+           false, false, true, true, false, false)), (String ((Ascii (false,
+           true, true, true, false, true, false, false)),
+           EmptyString)))))))))))))))
+    then Err EEof
+    else Err EVersion
+
+(** val fIELD_VALID : bytes **)
+
+let fIELD_VALID =
+  bs (String ((Ascii (true, false, false, false, false, true, false, false)),
+    (String ((Ascii (true, true, false, false, false, true, false, false)),
+    (String ((Ascii (false, false, true, false, false, true, false, false)),
+    (String ((Ascii (true, false, true, false, false, true, false, false)),
+    (String ((Ascii (false, true, true, false, false, true, false, false)),
+    (String ((Ascii (true, true, true, false, false, true, false, false)),
+    (String ((Ascii (false, true, false, true, false, true, false, false)),
+    (String ((Ascii (true, true, false, true, false, true, false, false)),
+    (String ((Ascii (true, false, true, true, false, true, false, false)),
+    (String ((Ascii (false, true, true, true, false, true, false, false)),
+    (String ((Ascii (false, true, true, true, true, false, true, false)),
+    (String ((Ascii (true, true, true, true, true, false, true, false)),
+    (String ((Ascii (false, false, false, false, false, true, true, false)),
+    (String ((Ascii (false, false, true, true, true, true, true, false)),
+    (String ((Ascii (false, true, true, true, true, true, true, false)),
+    (String ((Ascii (true, false, false, false, false, false, true, false)),
+    (String ((Ascii (false, true, false, false, false, false, true, false)),
+    (String ((Ascii (true, true, false, false, false, false, true, false)),
+    (String ((Ascii (false, false, true, false, false, false, true, false)),
+    (String ((Ascii (true, false, true, false, false, false, true, false)),
+    (String ((Ascii (false, true, true, false, false, false, true, false)),
+    (String ((Ascii (true, true, true, false, false, false, true, false)),
+    (String ((Ascii (false, false, false, true, false, false, true, false)),
+    (String ((Ascii (true, false, false, true, false, false, true, false)),
+    (String ((Ascii (false, true, false, true, false, false, true, false)),
+    (String ((Ascii (true, true, false, true, false, false, true, false)),
+    (String ((Ascii (false, false, true, true, false, false, true, false)),
+    (String ((Ascii (true, false, true, true, false, false, true, false)),
+    (String ((Ascii (false, true, true, true, false, false, true, false)),
+    (String ((Ascii (true, true, true, true, false, false, true, false)),
+    (String ((Ascii (false, false, false, false, true, false, true, false)),
+    (String ((Ascii (true, false, false, false, true, false, true, false)),
+    (String ((Ascii (false, true, false, false, true, false, true, false)),
+    (String ((Ascii (true, true, false, false, true, false, true, false)),
+    (String ((Ascii (false, false, true, false, true, false, true, false)),
+    (String ((Ascii (true, false, true, false, true, false, true, false)),
+    (String ((Ascii (false, true, true, false, true, false, true, false)),
+    (String ((Ascii (true, true, true, false, true, false, true, false)),
+    (String ((Ascii (false, false, false, true, true, false, true, false)),
+    (String ((Ascii (true, false, false, true, true, false, true, false)),
+    (String ((Ascii (false, true, false, true, true, false, true, false)),
+    (String ((Ascii (true, false, false, false, false, true, true, false)),
+    (String ((Ascii (false, true, false, false, false, true, true, false)),
+    (String ((Ascii (true, true, false, false, false, true, true, false)),
+    (String ((Ascii (false, false, true, false, false, true, true, false)),
+    (String ((Ascii (true, false, true, false, false, true, true, false)),
+    (String ((Ascii (false, true, true, false, false, true, true, false)),
+    (String ((Ascii (true, true, true, false, false, true, true, false)),
+    (String ((Ascii (false, false, false, true, false, true, true, false)),
+    (String ((Ascii (true, false, false, true, false, true, true, false)),
+    (String ((Ascii (false, true, false, true, false, true, true, false)),
+    (String ((Ascii (true, true, false, true, false, true, true, false)),
+    (String ((Ascii (false, false, true, true, false, true, true, false)),
+    (String ((Ascii (true, false, true, true, false, true, true, false)),
+    (String ((Ascii (false, true, true, true, false, true, true, false)),
+    (String ((Ascii (true, true, true, true, false, true, true, false)),
+    (String ((Ascii (false, false, false, false, true, true, true, false)),
+    (String ((Ascii (true, false, false, false, true, true, true, false)),
+    (String ((Ascii (false, true, false, false, true, true, true, false)),
+    (String ((Ascii (true, true, false, false, true, true, true, false)),
+    (String ((Ascii (false, false, true, false, true, true, true, false)),
+    (String ((Ascii (true, false, true, false, true, true, true, false)),
+    (String ((Ascii (false, true, true, false, true, true, true, false)),
+    (String ((Ascii (true, true, true, false, true, true, true, false)),
+    (String ((Ascii (false, false, false, true, true, true, true, false)),
+    (String ((Ascii (true, false, false, true, true, true, true, false)),
+    (String ((Ascii (false, true, false, true, true, true, true, false)),
+    (String ((Ascii (false, false, false, false, true, true, false, false)),
+    (String ((Ascii (true, false, false, false, true, true, false, false)),
+    (String ((Ascii (false, true, false, false, true, true, false, false)),
+    (String ((Ascii (true, true, false, false, true, true, false, false)),
+    (String ((Ascii (false, false, true, false, true, true, false, false)),
+    (String ((Ascii (true, false, true, false, true, true, false, false)),
+    (String ((Ascii (false, true, true, false, true, true, false, false)),
+    (String ((Ascii (true, true, true, false, true, true, false, false)),
+    (String ((Ascii (false, false, false, true, true, true, false, false)),
+    (String ((Ascii (true, false, false, true, true, true, false, false)),
+    EmptyString))))))))))))))))))))))))))))))))))))))))))))))))))))))))))))))))))))))))))))))))))))))))))))))))))))))))))))))))))))))))))))))))))))))))))))))))))))))))))
+
+(** val is_valid_header_field_byte : byte -> bool **)
+
+let is_valid_header_field_byte b =
+  existsb (eqb0 b) fIELD_VALID
+
+(** val parse_header_line : bytes -> (bytes * bytes) res **)
+
+let parse_header_line line =
+  match find_index (eqb0 X3a) line with
+  | Some colon ->
+    let nm = firstn colon line in
+    if (||) (Nat.eqb colon O) (negb (forallb is_valid_header_field_byte nm))
+    then Err EHeader
+    else bind (str_unchecked nm) (fun name -> Ok (name,
+           (trim_start is_ascii_ws (skipn (S colon) line))))
+  | None -> Err EHeader
+
+(** val parse_headers_f : nat -> headers -> bytes -> (headers * bytes) res **)
+
+let rec parse_headers_f fuel h buf =
+  match fuel with
+  | O -> Fault FFuel
+  | S fuel' ->
+    (match strip_prefix (X0d :: (X0a :: [])) buf with
+     | Some rest -> Ok (h, rest)
+     | None ->
+       (match find_index (eqb0 X0a) buf with
+        | Some nl ->
+          if Nat.eqb nl O
+          then Err EHeader
+          else (match nth_error buf (sub nl (S O)) with
+                | Some c ->
+                  if negb (eqb0 c X0d)
+                  then Err EHeader
+                  else bind (parse_header_line (firstn (sub nl (S O)) buf))
+                         (fun x ->
+                         let (name, value) = x in
+                         if (&&) (eq_ic name cONTENT_LENGTH)
+                              (match parse_content_length value with
+                               | Some n0 ->
+                                 (match h.content_length with
+                                  | Some m -> negb (N.eqb n0 m)
+                                  | None -> false)
+                               | None -> true)
+                         then Err EHeader
+                         else parse_headers_f fuel' (add0 h name value)
+                                (skipn (S nl) buf))
+                | None -> Fault FOob)
+        | None -> Err EEof))
+
+(** val parse_headers : bytes -> (headers * bytes) res **)
+
+let parse_headers buf =
+  parse_headers_f (S (length buf)) new_headers buf
+
+(** val offset_of : bytes -> bytes -> nat res **)
+
+let offset_of buf rest =
+  if Nat.leb (length rest) (length buf)
+  then Ok (sub (length buf) (length rest))
+  else Fault FOob
+
+(** val parse_request : bytes -> request res **)
+
+let parse_request buf =
+  bind (parse_method buf) (fun x ->
+    let (m, r1) = x in
+    bind (parse_uri r1) (fun x0 ->
+      let (u, r2) = x0 in
+      bind (parse_version r2) (fun x1 ->
+        let (v, r3) = x1 in
+        (match r3 with
+         | [] -> Err EEof
+         | b :: l ->
+           (match b with
+            | X0d ->
+              (match l with
+               | [] -> Err EEof
+               | b1 :: r4 ->
+                 (match b1 with
+                  | X0a ->
+                    bind (parse_headers r4) (fun x2 ->
+                      let (hs, r5) = x2 in
+                      bind (offset_of buf r5) (fun off -> Ok { q_meth = m;
+                        q_target = u; q_version = v; q_hdrs = hs; q_offset =
+                        off }))
+                  | _ -> Err EStatus))
+            | _ -> Err EStatus)))))
+
+type response = { r_version : n; r_code : n; r_reason : bytes;
+                  r_hdrs : headers; r_offset : nat }
+
+(** val digit_at : bytes -> nat -> n res **)
+
+let digit_at buf i =
+  match nth_error buf i with
+  | Some b ->
+    if is_digit b
+    then Ok (N.sub (b2n b) (Npos (XO (XO (XO (XO (XI XH)))))))
+    else Err EStatus
+  | None -> Err EEof
+
+(** val is_reason_byte : byte -> bool **)
+
+let is_reason_byte c = match c with
+| X09 -> true
+| X20 -> true
+| _ -> is_vchar c
+
+(** val reason_scan : bytes -> nat -> nat res **)
+
+let rec reason_scan l i =
+  match l with
+  | [] -> Err EEof
+  | c :: r ->
+    (match r with
+     | [] -> Err EEof
+     | d :: _ ->
+       if (&&) (eqb0 c X0d) (eqb0 d X0a)
+       then Ok i
+       else if is_reason_byte c then reason_scan r (S i) else Err EStatus)
+
+(** val parse_response_status : bytes -> ((n * bytes) * bytes) res **)
+
+let parse_response_status buf =
+  bind (digit_at buf O) (fun h ->
+    bind (digit_at buf (S O)) (fun t ->
+      bind (digit_at buf (S (S O))) (fun o ->
+        match nth_error buf (S (S (S O))) with
+        | Some sp ->
+          if negb (eqb0 sp X20)
+          then Err EStatus
+          else let b = skipn (S (S (S (S O)))) buf in
+               bind (reason_scan b O) (fun i ->
+                 bind (str_unchecked (firstn i b)) (fun reason -> Ok
+                   (((N.add
+                       (N.add
+                         (N.mul h (Npos (XO (XO (XI (XO (XO (XI XH))))))))
+                         (N.mul t (Npos (XO (XI (XO XH)))))) o), reason),
+                   (skipn (add i (S (S O))) b))))
+        | None -> Err EEof)))
+
+(** val parse_response : bytes -> response res **)
+
+let parse_response buf =
+  bind (parse_version buf) (fun x ->
+    let (v, r1) = x in
+    (match r1 with
+     | [] -> Err EEof
+     | sp :: r2 ->
+       if negb (eqb0 sp X20)
+       then Err EStatus
+       else bind (parse_response_status r2) (fun x0 ->
+              let (p, r3) = x0 in
+              let (code, reason) = p in
+              bind (parse_headers r3) (fun x1 ->
+                let (hs, r4) = x1 in
+                bind (offset_of buf r4) (fun off -> Ok { r_version = v;
+                  r_code = code; r_reason = reason; r_hdrs = hs; r_offset =
+                  off })))))
+
+(** val slice : bytes -> nat -> nat -> bytes res **)
+
+let slice l a b =
+  if (&&) (Nat.leb a b) (Nat.leb b (length l))
+  then Ok (firstn (sub b a) (skipn a l))
+  else Fault FOob
+
+(** val find_sub : bytes -> bytes -> nat option **)
+
+let rec find_sub pat l =
+  if is_prefix pat l
+  then Some O
+  else (match l with
+        | [] -> None
+        | _ :: r -> option_map (fun x -> S x) (find_sub pat r))
+
+(** val sCHEME_SEP : bytes **)
+
+let sCHEME_SEP =
+  bs (String ((Ascii (false, true, false, true, true, true, false, false)),
+    (String ((Ascii (true, true, true, true, false, true, false, false)),
+    (String ((Ascii (true, true, true, true, false, true, false, false)),
+    EmptyString))))))
+
+(** val uri_scheme : uri -> bytes option res **)
+
+let uri_scheme u =
+  match find_sub sCHEME_SEP u.full with
+  | Some idx -> bind (slice u.full O idx) (fun s -> Ok (Some s))
+  | None -> Ok None
+
+(** val uri_path : uri -> bytes res **)
+
+let uri_path u =
+  slice u.full u.p_start u.p_end
+
+(** val uri_query : uri -> bytes option res **)
+
+let uri_query u =
+  bind (slice u.full u.p_end (length u.full)) (fun ps ->
+    match find_index (eqb0 X3f) ps with
+    | Some q -> bind (slice ps (S q) (length ps)) (fun s -> Ok (Some s))
+    | None -> Ok None)
+
+(** val uri_authority : uri -> bytes option res **)
+
+let uri_authority u =
+  match find_sub sCHEME_SEP u.full with
+  | Some i ->
+    if (||) (Nat.eqb u.p_start O) (Nat.leb (add i (S (S (S O)))) u.p_start)
+    then let start = add i (S (S (S O))) in
+         if Nat.eqb u.p_start O
+         then bind (slice u.full start (length u.full)) (fun rest ->
+                match find_index (eqb0 X3f) rest with
+                | Some i0 -> bind (slice rest O i0) (fun s -> Ok (Some s))
+                | None -> Ok (Some rest))
+         else bind (slice u.full start u.p_start) (fun s -> Ok (Some s))
+    else (match u.full with
+          | [] ->
+            (match find_index (fun b -> (||) (eqb0 b X2f) (eqb0 b X3f)) u.full with
+             | Some i0 -> bind (slice u.full O i0) (fun s -> Ok (Some s))
+             | None -> Ok (Some u.full))
+          | b :: _ ->
+            (match b with
+             | X2f -> Ok None
+             | _ ->
+               (match find_index (fun b1 -> (||) (eqb0 b1 X2f) (eqb0 b1 X3f))
+                        u.full with
+                | Some i0 -> bind (slice u.full O i0) (fun s -> Ok (Some s))
+                | None -> Ok (Some u.full))))
+  | None ->
+    (match u.full with
+     | [] ->
+       (match find_index (fun b -> (||) (eqb0 b X2f) (eqb0 b X3f)) u.full with
+        | Some i -> bind (slice u.full O i) (fun s -> Ok (Some s))
+        | None -> Ok (Some u.full))
+     | b :: _ ->
+       (match b with
+        | X2f -> Ok None
+        | _ ->
+          (match find_index (fun b1 -> (||) (eqb0 b1 X2f) (eqb0 b1 X3f))
+                   u.full with
+           | Some i -> bind (slice u.full O i) (fun s -> Ok (Some s))
+           | None -> Ok (Some u.full))))
+
+(** val uri_path_and_query : uri -> bytes res **)
+
+let uri_path_and_query u =
+  if negb (Nat.eqb u.p_end O)
+  then slice u.full u.p_start (length u.full)
+  else (match find_sub sCHEME_SEP u.full with
+        | Some scheme_i ->
+          bind (slice u.full (add scheme_i (S (S (S O)))) (length u.full))
+            (fun rest ->
+            match find_index (eqb0 X3f) rest with
+            | Some rel_q ->
+              slice u.full (add (add scheme_i (S (S (S O)))) rel_q)
+                (length u.full)
+            | None -> Ok [])
+        | None -> Ok [])
+
+(** val lF : byte **)
+
+let lF =
+  X0a
+
+(** val sP : byte **)
+
+let sP =
+  X20
+
+(** val cRLF : bytes **)
+
+let cRLF =
+  X0d :: (X0a :: [])
+
+(** val in_set : bytes -> byte -> bool **)
+
+let in_set s b =
+  existsb (eqb0 b) s
+
+(** val is_tchar : byte -> bool **)
+
+let is_tchar b =
+  (||) ((||) (is_alpha b) (is_digit b))
+    (in_set
+      (bs (String ((Ascii (true, false, false, false, false, true, false,
+        false)), (String ((Ascii (true, true, false, false, false, true,
+        false, false)), (String ((Ascii (false, false, true, false, false,
+        true, false, false)), (String ((Ascii (true, false, true, false,
+        false, true, false, false)), (String ((Ascii (false, true, true,
+        false, false, true, false, false)), (String ((Ascii (true, true,
+        true, false, false, true, false, false)), (String ((Ascii (false,
+        true, false, true, false, true, false, false)), (String ((Ascii
+        (true, true, false, true, false, true, false, false)), (String
+        ((Ascii (true, false, true, true, false, true, false, false)),
+        (String ((Ascii (false, true, true, true, false, true, false,
+        false)), (String ((Ascii (false, true, true, true, true, false, true,
+        false)), (String ((Ascii (true, true, true, true, true, false, true,
+        false)), (String ((Ascii (false, false, false, false, false, true,
+        true, false)), (String ((Ascii (false, false, true, true, true, true,
+        true, false)), (String ((Ascii (false, true, true, true, true, true,
+        true, false)), EmptyString))))))))))))))))))))))))))))))) b)
+
+(** val is_unreserved : byte -> bool **)
+
+let is_unreserved b =
+  (||) ((||) (is_alpha b) (is_digit b))
+    (in_set
+      (bs (String ((Ascii (true, false, true, true, false, true, false,
+        false)), (String ((Ascii (false, true, true, true, false, true,
+        false, false)), (String ((Ascii (true, true, true, true, true, false,
+        true, false)), (String ((Ascii (false, true, true, true, true, true,
+        true, false)), EmptyString))))))))) b)
+
+(** val is_subdelim : byte -> bool **)
+
+let is_subdelim b =
+  in_set
+    (bs (String ((Ascii (true, false, false, false, false, true, false,
+      false)), (String ((Ascii (false, false, true, false, false, true,
+      false, false)), (String ((Ascii (false, true, true, false, false, true,
+      false, false)), (String ((Ascii (true, true, true, false, false, true,
+      false, false)), (String ((Ascii (false, false, false, true, false,
+      true, false, false)), (String ((Ascii (true, false, false, true, false,
+      true, false, false)), (String ((Ascii (false, true, false, true, false,
+      true, false, false)), (String ((Ascii (true, true, false, true, false,
+      true, false, false)), (String ((Ascii (false, false, true, true, false,
+      true, false, false)), (String ((Ascii (true, true, false, true, true,
+      true, false, false)), (String ((Ascii (true, false, true, true, true,
+      true, false, false)), EmptyString))))))))))))))))))))))) b
+
+(** val is_pchar : byte -> bool **)
+
+let is_pchar b =
+  (||) ((||) (is_unreserved b) (is_subdelim b))
+    (in_set
+      (bs (String ((Ascii (false, true, false, true, true, true, false,
+        false)), (String ((Ascii (false, false, false, false, false, false,
+        true, false)), (String ((Ascii (true, false, true, false, false,
+        true, false, false)), EmptyString))))))) b)
+
+(** val is_path_char : byte -> bool **)
+
+let is_path_char b =
+  (||) (is_pchar b) (eqb0 b X2f)
+
+(** val is_query_char : byte -> bool **)
+
+let is_query_char b =
+  (||) (is_pchar b)
+    (in_set
+      (bs (String ((Ascii (true, true, true, true, false, true, false,
+        false)), (String ((Ascii (true, true, true, true, true, true, false,
+        false)), EmptyString))))) b)
+
+(** val is_authority_char : byte -> bool **)
+
+let is_authority_char b =
+  (||) ((||) (is_unreserved b) (is_subdelim b))
+    (in_set
+      (bs (String ((Ascii (false, true, false, true, true, true, false,
+        false)), (String ((Ascii (false, false, false, false, false, false,
+        true, false)), (String ((Ascii (true, false, true, false, false,
+        true, false, false)), (String ((Ascii (true, true, false, true, true,
+        false, true, false)), (String ((Ascii (true, false, true, true, true,
+        false, true, false)), EmptyString))))))))))) b)
+
+(** val is_scheme_char : byte -> bool **)
+
+let is_scheme_char b =
+  (||) ((||) (is_alpha b) (is_digit b))
+    (in_set
+      (bs (String ((Ascii (true, true, false, true, false, true, false,
+        false)), (String ((Ascii (true, false, true, true, false, true,
+        false, false)), (String ((Ascii (false, true, true, true, false,
+        true, false, false)), EmptyString))))))) b)
+
+(** val is_field_vchar : byte -> bool **)
+
+let is_field_vchar b =
+  (||)
+    ((||) (is_vchar b)
+      (N.leb (Npos (XO (XO (XO (XO (XO (XO (XO XH)))))))) (b2n b))) (is_ows b)
+
+type target =
+| Origin of bytes * bytes option
+| Absolute of bytes * bytes * bytes * bytes option
+| AuthorityForm of bytes
+| Asterisk
+
+type field = { f_name : bytes; f_ows : bytes; f_value : bytes }
+
+type head = { h_method : bytes; h_target : target; h_minor : bool;
+              h_fields : field list }
+
+(** val render_query : bytes option -> bytes **)
+
+let render_query = function
+| Some s -> X3f :: s
+| None -> []
+
+(** val render_target : target -> bytes **)
+
+let render_target = function
+| Origin (p, q) -> app p (render_query q)
+| Absolute (s, a, p, q) ->
+  app s
+    (app
+      (bs (String ((Ascii (false, true, false, true, true, true, false,
+        false)), (String ((Ascii (true, true, true, true, false, true, false,
+        false)), (String ((Ascii (true, true, true, true, false, true, false,
+        false)), EmptyString))))))) (app a (app p (render_query q))))
+| AuthorityForm a -> a
+| Asterisk -> X2a :: []
+
+(** val render_field : field -> bytes **)
+
+let render_field f =
+  app f.f_name (app (X3a :: []) (app f.f_ows (app f.f_value cRLF)))
+
+(** val render : head -> bytes **)
+
+let render h =
+  app h.h_method
+    (app (sP :: [])
+      (app (render_target h.h_target)
+        (app (sP :: [])
+          (app
+            (bs (String ((Ascii (false, false, false, true, false, false,
+              true, false)), (String ((Ascii (false, false, true, false,
+              true, false, true, false)), (String ((Ascii (false, false,
+              true, false, true, false, true, false)), (String ((Ascii
+              (false, false, false, false, true, false, true, false)),
+              (String ((Ascii (true, true, true, true, false, true, false,
+              false)), (String ((Ascii (true, false, false, false, true,
+              true, false, false)), (String ((Ascii (false, true, true, true,
+              false, true, false, false)), EmptyString)))))))))))))))
+            (app ((if h.h_minor then X31 else X30) :: [])
+              (app cRLF (app (flat_map render_field h.h_fields) cRLF)))))))
+
+(** val nonempty : bytes -> bool **)
+
+let nonempty = function
+| [] -> false
+| _ :: _ -> true
+
+(** val opt_all : (byte -> bool) -> bytes option -> bool **)
+
+let opt_all p = function
+| Some s -> forallb p s
+| None -> true
+
+(** val rfc_target : target -> bool **)
+
+let rfc_target = function
+| Origin (p, q) ->
+  (&&)
+    ((&&)
+      (match p with
+       | [] -> false
+       | b :: _ -> (match b with
+                    | X2f -> true
+                    | _ -> false)) (forallb is_path_char p))
+    (opt_all is_query_char q)
+| Absolute (s, a, p, q) ->
+  (&&)
+    ((&&)
+      ((&&)
+        ((&&)
+          ((&&)
+            ((&&) (match s with
+                   | [] -> false
+                   | c :: _ -> is_alpha c) (forallb is_scheme_char s))
+            (nonempty a)) (forallb is_authority_char a))
+        (match p with
+         | [] -> true
+         | b :: _ -> (match b with
+                      | X2f -> true
+                      | _ -> false))) (forallb is_path_char p))
+    (opt_all is_query_char q)
+| AuthorityForm a ->
+  (&&)
+    ((&&) (nonempty a)
+      (forallb (fun b ->
+        (||) ((||) (is_unreserved b) (is_subdelim b))
+          (in_set
+            (bs (String ((Ascii (false, true, false, true, true, true, false,
+              false)), (String ((Ascii (true, false, true, false, false,
+              true, false, false)), (String ((Ascii (true, true, false, true,
+              true, false, true, false)), (String ((Ascii (true, false, true,
+              true, true, false, true, false)), EmptyString))))))))) b)) a))
+    (match a with
+     | [] -> true
+     | b :: _ -> (match b with
+                  | X2a -> false
+                  | _ -> true))
+| Asterisk -> true
+
+(** val rfc_field : field -> bool **)
+
+let rfc_field f =
+  (&&)
+    ((&&)
+      ((&&) ((&&) (nonempty f.f_name) (forallb is_tchar f.f_name))
+        (forallb is_ows f.f_ows)) (forallb is_field_vchar f.f_value))
+    (match f.f_value with
+     | [] -> true
+     | b :: _ -> negb (is_ows b))
+
+(** val rfc_head : head -> bool **)
+
+let rfc_head h =
+  (&&)
+    ((&&) ((&&) (nonempty h.h_method) (forallb is_alpha h.h_method))
+      (rfc_target h.h_target)) (forallb rfc_field h.h_fields)
+
+(** val target_path : target -> bytes **)
+
+let target_path = function
+| Origin (p, _) -> p
+| Absolute (_, _, p, _) -> p
+| AuthorityForm _ -> []
+| Asterisk -> X2a :: []
+
+(** val target_query : target -> bytes option **)
+
+let target_query = function
+| Origin (_, q) -> q
+| Absolute (_, _, _, q) -> q
+| _ -> None
+
+(** val headers_of : (bytes * bytes) list -> headers **)
+
+let headers_of fs =
+  fold_left (fun h nv -> add0 h (fst nv) (snd nv)) fs new_headers
+
+(** val field_pairs : head -> (bytes * bytes) list **)
+
+let field_pairs h =
+  map (fun f -> (f.f_name, f.f_value)) h.h_fields
+
+(** val cl_values : (bytes * bytes) list -> n option list **)
+
+let cl_values fs =
+  map (fun nv -> parse_content_length (snd nv))
+    (filter (fun nv -> eq_ic (fst nv) cONTENT_LENGTH) fs)
+
+(** val cl_consistent : (bytes * bytes) list -> bool **)
+
+let cl_consistent fs =
+  match cl_values fs with
+  | [] -> true
+  | o :: r ->
+    (match o with
+     | Some n0 ->
+       forallb (fun o0 -> match o0 with
+                          | Some m -> N.eqb m n0
+                          | None -> false) r
+     | None -> false)
+
+(** val split_at : byte -> bytes -> (bytes * bytes) option **)
+
+let rec split_at c = function
+| [] -> None
+| b :: r ->
+  if eqb0 b c
+  then Some ([], r)
+  else (match split_at c r with
+        | Some p -> let (x, y) = p in Some ((b :: x), y)
+        | None -> None)
+
+(** val take_line : bytes -> (bytes * bytes) option **)
+
+let take_line l =
+  match split_at lF l with
+  | Some p ->
+    let (before, rest) = p in
+    (match rev before with
+     | [] -> None
+     | b :: rb -> (match b with
+                   | X0d -> Some ((rev rb), rest)
+                   | _ -> None))
+  | None -> None
+
+type sfield = { s_name : bytes; s_raw : bytes }
+
+type shead = { s_method : bytes; s_target : bytes; s_minor : bool;
+               s_fields : sfield list }
+
+(** val strict_fields : nat -> bytes -> (sfield list * bytes) option **)
+
+let rec strict_fields fuel l =
+  match fuel with
+  | O -> None
+  | S fuel' ->
+    (match l with
+     | [] ->
+       (match take_line l with
+        | Some p ->
+          let (line, rest) = p in
+          (match split_at X3a line with
+           | Some p0 ->
+             let (name, raw) = p0 in
+             if (&&) (nonempty name) (forallb is_tchar name)
+             then (match strict_fields fuel' rest with
+                   | Some p1 ->
+                     let (fs, rest') = p1 in
+                     Some (({ s_name = name; s_raw = raw } :: fs), rest')
+                   | None -> None)
+             else None
+           | None -> None)
+        | None -> None)
+     | b :: l0 ->
+       (match b with
+        | X0d ->
+          (match l0 with
+           | [] ->
+             (match take_line l with
+              | Some p ->
+                let (line, rest) = p in
+                (match split_at X3a line with
+                 | Some p0 ->
+                   let (name, raw) = p0 in
+                   if (&&) (nonempty name) (forallb is_tchar name)
+                   then (match strict_fields fuel' rest with
+                         | Some p1 ->
+                           let (fs, rest') = p1 in
+                           Some (({ s_name = name; s_raw = raw } :: fs),
+                           rest')
+                         | None -> None)
+                   else None
+                 | None -> None)
+              | None -> None)
+           | b1 :: rest ->
+             (match b1 with
+              | X0a -> Some ([], rest)
+              | _ ->
+                (match take_line l with
+                 | Some p ->
+                   let (line, rest0) = p in
+                   (match split_at X3a line with
+                    | Some p0 ->
+                      let (name, raw) = p0 in
+                      if (&&) (nonempty name) (forallb is_tchar name)
+                      then (match strict_fields fuel' rest0 with
+                            | Some p1 ->
+                              let (fs, rest') = p1 in
+                              Some (({ s_name = name; s_raw = raw } :: fs),
+                              rest')
+                            | None -> None)
+                      else None
+                    | None -> None)
+                 | None -> None)))
+        | _ ->
+          (match take_line l with
+           | Some p ->
+             let (line, rest) = p in
+             (match split_at X3a line with
+              | Some p0 ->
+                let (name, raw) = p0 in
+                if (&&) (nonempty name) (forallb is_tchar name)
+                then (match strict_fields fuel' rest with
+                      | Some p1 ->
+                        let (fs, rest') = p1 in
+                        Some (({ s_name = name; s_raw = raw } :: fs), rest')
+                      | None -> None)
+                else None
+              | None -> None)
+           | None -> None)))
+
+(** val strict_head : bytes -> (shead * nat) option **)
+
+let strict_head s =
+  match split_at sP s with
+  | Some p ->
+    let (m, r1) = p in
+    if negb ((&&) (nonempty m) (forallb is_tchar m))
+    then None
+    else (match split_at sP r1 with
+          | Some p0 ->
+            let (t, r2) = p0 in
+            if negb ((&&) (nonempty t) (forallb is_vchar t))
+            then None
+            else (match strip_prefix
+                          (bs (String ((Ascii (false, false, false, true,
+                            false, false, true, false)), (String ((Ascii
+                            (false, false, true, false, true, false, true,
+                            false)), (String ((Ascii (false, false, true,
+                            false, true, false, true, false)), (String
+                            ((Ascii (false, false, false, false, true, false,
+                            true, false)), (String ((Ascii (true, true, true,
+                            true, false, true, false, false)), (String
+                            ((Ascii (true, false, false, false, true, true,
+                            false, false)), (String ((Ascii (false, true,
+                            true, true, false, true, false, false)),
+                            EmptyString))))))))))))))) r2 with
+                  | Some r3 ->
+                    (match r3 with
+                     | [] -> None
+                     | d :: l ->
+                       (match l with
+                        | [] -> None
+                        | b :: l0 ->
+                          (match b with
+                           | X0d ->
+                             (match l0 with
+                              | [] -> None
+                              | b1 :: r4 ->
+                                (match b1 with
+                                 | X0a ->
+                                   if (||) (eqb0 d X31) (eqb0 d X30)
+                                   then (match strict_fields (S (length r4))
+                                                 r4 with
+                                         | Some p1 ->
+                                           let (fs, rest) = p1 in
+                                           Some ({ s_method = m; s_target =
+                                           t; s_minor = (eqb0 d X31);
+                                           s_fields = fs },
+                                           (sub (length s) (length rest)))
+                                         | None -> None)
+                                   else None
+                                 | _ -> None))
+                           | _ -> None)))
+                  | None -> None)
+          | None -> None)
+  | None -> None
+
+(** val field_value : bytes -> bytes **)
+
+let field_value raw =
+  drop_while is_ascii_ws raw
+
+(** val sfield_pairs : sfield list -> (bytes * bytes) list **)
+
+let sfield_pairs fs =
+  map (fun f -> (f.s_name, (field_value f.s_raw))) fs
